@@ -18,12 +18,15 @@
        leaf kinds   VLAN, ARP, ICMP, UDP, TCP, FragmentHeader, Option, IGMPv1or2, RoutingHeader, u.Buffer
        lists        HopByHopHeader (options), IGMPv3Query (sources), IGMPv3GroupRecord (sources + aux words),
                     IGMPv3MembershipReport (group records)
-       containers   IPv4 (options; ICMP / UDP / opaque payload), Ethernet (untagged or 802.1Q-tagged; IPv4 / ARP / opaque
-                    payload), IPv6 without extension headers (`ipv6_noext_roundtrip_partial`; ICMPv6 / UDP / opaque payload)
+       containers   IPv4 (options; ICMP / UDP / opaque payload), IPv6 (any chain of hop-by-hop / routing / fragment headers
+                    that the next-header values describe, `chain_lemma`; ICMPv6 / UDP / opaque payload), Ethernet
+                    (untagged or 802.1Q-tagged; IPv4 / IPv6 / ARP / opaque payload) — all at any nesting depth
      DEFECT witness `ethernet_priority_tag_lost`: the Ethernet encoder emits the 802.1Q tag only when the VLAN id is
      non-zero, so a priority-tagged frame (id 0, priority 5 — every field in range) is encoded without its tag and does
-     not round-trip.  Not proved: IPv6 with a chain of extension headers (each header kind round-trips on its own and the
-     decoder's walk is characterised in part 3, but encoder walk ∘ decoder walk is not composed here).
+     not round-trip (hence `Ethernet.WFv` demands a non-zero id for tagged frames).  Two more restrictions the code
+     imposes are visible in the predicates: an ARP value must have HWLength 6 / ProtoLength 4 (the decoder always builds
+     6- and 4-byte address arrays), and fields that never reach the wire (Ethernet.Delimiter, IGMPv3 Reserved fields) must
+     be 0.  TCP (protocol 6) is not demultiplexed by the IPv4 / IPv6 decoders: it comes back as an opaque `u.Buffer`.
 
   3. DEMUX theorems (`ethernet_demux`, `ipv4_demux`, `ipv6_demux`): whenever `Ethernet/IPv4/IPv6.UnmarshalBinary`
      succeeds, the payload was decoded from the bytes behind the header by the decoder — and therefore has the kind — that
@@ -341,6 +344,19 @@ theorem arp_roundtrip (v : V) (h : ARP.WFv v) : RoundTripPrefix kARP v := by
 
 example : ARP.WFv (.obj "p.ARP" [.num 1, .num 0x800, .num 6, .num 4, .num 2, .bytes [1, 2, 3, 4, 5, 6],
     .bytes [10, 0, 0, 1], .bytes [7, 8, 9, 10, 11, 12], .bytes [10, 0, 0, 2]]) := by decide
+
+/-- an ARP value with 2-byte hardware addresses (HWLength 2, consistent with the parts present) -/
+def arpShort : V := .obj "p.ARP" [.num 1, .num 0x800, .num 2, .num 4, .num 1, .bytes [0xaa, 0xbb],
+  .bytes [10, 0, 0, 1], .bytes [0xcc, 0xdd], .bytes [10, 0, 0, 2]]
+
+/-- why `ARP.WFv` fixes HWLength = 6 and ProtoLength = 4: the encoder honours the length fields, but the decoder always
+    builds 6-byte hardware and 4-byte protocol address arrays, so shorter addresses come back zero-padded
+    (the field values are not preserved; re-encoding still reproduces the bytes) -/
+theorem arp_short_hw_not_preserved :
+    PARP.marshalM arpShort = .ok ([0, 1, 8, 0, 2, 4, 0, 1, 0xaa, 0xbb, 10, 0, 0, 1, 0xcc, 0xdd, 10, 0, 0, 2], arpShort) ∧
+    PARP.unmarshal PARP.zero (Slice.exact [0, 1, 8, 0, 2, 4, 0, 1, 0xaa, 0xbb, 10, 0, 0, 1, 0xcc, 0xdd, 10, 0, 0, 2]) =
+      .ok (.obj "p.ARP" [.num 1, .num 0x800, .num 2, .num 4, .num 1, .bytes [0xaa, 0xbb, 0, 0, 0, 0],
+        .bytes [10, 0, 0, 1], .bytes [0xcc, 0xdd, 0, 0, 0, 0], .bytes [10, 0, 0, 2]]) := ⟨rfl, rfl⟩
 
 /-! ### ICMP -/
 
@@ -1409,18 +1425,757 @@ example : IPv4.WFv (.obj "p.IPv4" [.num 4, .num 6, .num 10, .num 1, .num 31, .nu
     .num 0xbeef, .bytes [10, 0, 0, 1], .bytes [10, 0, 0, 2], .obj "u.Buffer" [.bytes [9, 9, 9, 9]],
     .obj "p.ICMP" [.num 8, .num 0, .num 0xf7ff, .bytes [1, 2, 3]]]) := by decide
 
-/-! ### Ethernet (container: optional 802.1Q tag, payload chosen by the ethertype) -/
+/-! ### IPv6 (container: version / class / flow-label lanes, payload chosen by the next-header value) -/
+
+/-- the payload an IPv6 packet whose header chain ends with next-header value `nx` may carry so that the decoder
+    finds it again: ICMPv6 (decoded as `p.ICMP`) for 58, UDP for 17, an opaque buffer otherwise -/
+def IPv6.PayloadOK (nx : Nat) (dat : V) : Prop :=
+  (nx = Gen.protocol.Type_IPv6ICMP ∧ ICMP.WFv dat) ∨ (nx = Gen.protocol.Type_UDP ∧ UDP.WFv dat) ∨
+    (nx ≠ Gen.protocol.Type_IPv6ICMP ∧ nx ≠ Gen.protocol.Type_UDP ∧ Buffer.WFv dat)
+instance (nx : Nat) (dat : V) : Decidable (IPv6.PayloadOK nx dat) := by unfold IPv6.PayloadOK; infer_instance
+
+/-- the decoder's payload choice as a function of the last next-header value -/
+def ipv6PayloadDecode (nx : UInt8) (rest : Slice) : R V :=
+  if nx.toNat = Gen.protocol.Type_IPv6ICMP then PICMP.unmarshal PIPv4.newICMP rest
+  else if nx.toNat = Gen.protocol.Type_UDP then PUDP.unmarshal PIPv4.newUDP rest
+  else UBuffer.unmarshal UBuffer.zero rest
+
+/-- what an admissible IPv6 payload provides to the container: the dispatch reaches its kind, it round-trips, its size
+    is `paySize`, and the decoder's choice for the last next-header value `nx` is its decoder -/
+theorem ipv6_payload_facts (nx : Nat) (hnx : nx < 256) (dat : V) (h : IPv6.PayloadOK nx dat) (d : Nat) :
+    dat.isNil = false ∧ ∃ pb pl, protoAnyLenD (d + 1) dat = .ok (pl, dat) ∧ protoAnyMarshalD (d + 1) dat = .ok (pb, dat) ∧
+      pb.length = pl.toNat ∧ pl.toNat = paySize dat ∧ ∀ spare, ipv6PayloadDecode (n8 nx) ⟨pb ++ spare, pb.length⟩ = .ok dat := by
+  have hn : (n8 nx).toNat = nx := n8_toNat _ hnx
+  rcases h with ⟨hp, hw⟩ | ⟨hp, hw⟩ | ⟨hp, hq, hw⟩
+  · have hk := icmp_kind_of_wf dat hw
+    obtain ⟨pb, pl, h1, h2, h3, h4⟩ := icmp_roundtrip dat hw
+    refine ⟨?_, pb, pl, ?_, ?_, h3, icmp_size dat hw pl h2, ?_⟩
+    · cases dat <;> simp_all [V.kind, V.isNil]
+    · simp only [protoAnyLenD, hk]; exact h2
+    · simp only [protoAnyMarshalD, hk]; exact h1
+    · intro spare
+      unfold ipv6PayloadDecode
+      rw [hn, if_pos hp]
+      exact h4 spare
+  · have hk := udp_kind_of_wf dat hw
+    obtain ⟨pb, pl, h1, h2, h3, h4⟩ := udp_roundtrip dat hw
+    have hne : nx ≠ Gen.protocol.Type_IPv6ICMP := by rw [hp]; decide
+    refine ⟨?_, pb, pl, ?_, ?_, h3, udp_size dat hw pl h2, ?_⟩
+    · cases dat <;> simp_all [V.kind, V.isNil]
+    · simp only [protoAnyLenD, hk]; exact h2
+    · simp only [protoAnyMarshalD, hk]; exact h1
+    · intro spare
+      unfold ipv6PayloadDecode
+      rw [hn, if_neg hne, if_pos hp]
+      exact h4 spare
+  · have hk := buffer_kind_of_wf dat hw
+    obtain ⟨pb, pl, h1, h2, h3, h4⟩ := buffer_roundtrip dat hw
+    refine ⟨?_, pb, pl, ?_, ?_, h3, buffer_size dat hw pl h2, ?_⟩
+    · cases dat <;> simp_all [V.kind, V.isNil]
+    · simp only [protoAnyLenD, hk]; exact h2
+    · simp only [protoAnyMarshalD, hk]; exact h1
+    · intro spare
+      unfold ipv6PayloadDecode
+      rw [hn, if_neg hp, if_neg hq]
+      exact h4 spare
+
+/-- the IPv6 operations as a container at nesting depth `d + 2` sees them (`d = 15` is the top level) -/
+def kIPv6At (d : Nat) : KindOps :=
+  ⟨PIPv6.lenW (protoAnyLenD (d + 1)), PIPv6.marshalW (protoAnyLenD (d + 1)) (protoAnyMarshalD (d + 1)), PIPv6.unmarshal, PIPv6.zero⟩
+/-- `IPv6` operations at top level -/
+def kIPv6 : KindOps := ⟨PIPv6.lenM, PIPv6.marshalM, PIPv6.unmarshal, PIPv6.zero⟩
+
+/-- the three kinds of IPv6 extension header the library knows -/
+inductive ExtK
+  | hbh | rt | fr
+deriving DecidableEq
+
+/-- the `NextHeader` field (the first field of every extension header) -/
+def nhOf : V → Nat
+  | .obj _ (.num nh :: _) => nh
+  | _ => 0
+
+/-- encoded size of an extension header value (0 for an absent one) -/
+def extSize : V → Nat
+  | .obj "p.HopByHopHeader" [_, .num hel, _] => 8 * (hel + 1)
+  | .obj "p.RoutingHeader" [_, .num hel, _, _, _] => 8 * (hel + 1)
+  | .obj "p.FragmentHeader" _ => 8
+  | _ => 0
+
+/-- the walk along the next-header values starting from `nxt`: which extension headers are visited, in order, and the
+    value announced for the payload; at most `fuel` headers -/
+def extPath (hbh rt fr : V) : Nat → Nat → List ExtK × Nat
+  | 0, nxt => ([], nxt)
+  | f + 1, nxt =>
+    if nxt = Gen.protocol.Type_HBH then
+      (ExtK.hbh :: (extPath hbh rt fr f (nhOf hbh)).1, (extPath hbh rt fr f (nhOf hbh)).2)
+    else if nxt = Gen.protocol.Type_Routing then
+      (ExtK.rt :: (extPath hbh rt fr f (nhOf rt)).1, (extPath hbh rt fr f (nhOf rt)).2)
+    else if nxt = Gen.protocol.Type_Fragment then
+      (ExtK.fr :: (extPath hbh rt fr f (nhOf fr)).1, (extPath hbh rt fr f (nhOf fr)).2)
+    else ([], nxt)
+
+/-- what the round trip of one extension header provides to the IPv6 container -/
+def ExtFacts (bytes : V → R Bytes) (next : V → R UInt8) (len : V → R UInt16) (unm : V → Slice → R V) (zero : V)
+    (X : V) (bs : Bytes) : Prop :=
+  bytes X = .ok bs ∧ next X = .ok (n8 (nhOf X)) ∧ nhOf X < 256 ∧ (∃ l, len X = .ok l ∧ bs.length = l.toNat) ∧
+    bs.length = extSize X ∧ 8 ≤ bs.length ∧ X.isNil = false ∧
+    ∀ tail n, bs.length ≤ n → n ≤ (bs ++ tail).length → unm zero ⟨bs ++ tail, n⟩ = .ok X
+
+/-- a well-formed hop-by-hop header provides `ExtFacts` -/
+theorem hbh_ext_facts (X : V) (h : HopByHop.WFv X) :
+    ∃ bs, ExtFacts PHopByHop.bytes PHopByHop.nextHeader PHopByHop.len PHopByHop.unmarshal PHopByHop.zero X bs := by
+  unfold HopByHop.WFv at h
+  split at h
+  · rename_i nh hel os
+    have hwf : HopByHop.WFv (.obj "p.HopByHopHeader" [.num nh, .num hel, .list os]) := by
+      simp only [HopByHop.WFv]; exact h
+    obtain ⟨bs, l, h1, h2, h3, h4⟩ := hopbyhop_roundtrip _ hwf
+    simp only [kHopByHop, PHopByHop.marshalM, PHopByHop.lenM] at h1 h2 h4
+    obtain ⟨b, hb, h1⟩ := bind_ok_inv _ _ _ h1
+    obtain ⟨rfl, _⟩ := same_ok _ _ _ _ h1
+    obtain ⟨l', hl', h2⟩ := bind_ok_inv _ _ _ h2
+    obtain ⟨rfl, _⟩ := same_ok _ _ _ _ h2
+    have hsz : bs.length = 8 * (hel + 1) := by
+      simp only [PHopByHop.len, Gen.protocol.HopByHopHeader.Len] at hl'
+      cases hl'
+      rw [h3, ext_len hel h.2.1]
+    exact ⟨bs, hb, rfl, h.1, ⟨l, hl', h3⟩, hsz, by omega, rfl, h4⟩
+  · exact h.elim
+
+/-- a well-formed routing header provides `ExtFacts` -/
+theorem routing_ext_facts (X : V) (h : Routing.WFv X) :
+    ∃ bs, ExtFacts PRouting.bytes PRouting.nextHeader PRouting.len PRouting.unmarshal PRouting.zero X bs := by
+  unfold Routing.WFv at h
+  split at h
+  · rename_i nh hel rt sl c
+    have hwf : Routing.WFv (.obj "p.RoutingHeader" [.num nh, .num hel, .num rt, .num sl, .obj "u.Buffer" [.bytes c]]) := by
+      simp only [Routing.WFv]; exact h
+    obtain ⟨bs, l, h1, h2, h3, h4⟩ := routing_roundtrip _ hwf
+    simp only [kRouting, PRouting.marshalM, PRouting.lenM] at h1 h2 h4
+    obtain ⟨b, hb, h1⟩ := bind_ok_inv _ _ _ h1
+    obtain ⟨rfl, _⟩ := same_ok _ _ _ _ h1
+    obtain ⟨l', hl', h2⟩ := bind_ok_inv _ _ _ h2
+    obtain ⟨rfl, _⟩ := same_ok _ _ _ _ h2
+    have hsz : bs.length = 8 * (hel + 1) := by
+      simp only [PRouting.len, Gen.protocol.RoutingHeader.Len] at hl'
+      cases hl'
+      rw [h3, ext_len hel h.2.1]
+    exact ⟨bs, hb, rfl, h.1, ⟨l, hl', h3⟩, hsz, by omega, rfl, h4⟩
+  · exact h.elim
+
+/-- a well-formed fragment header provides `ExtFacts` -/
+theorem fragment_ext_facts (X : V) (h : Fragment.WFv X) :
+    ∃ bs, ExtFacts PFragment.bytes PFragment.nextHeader PFragment.len PFragment.unmarshal PFragment.zero X bs := by
+  unfold Fragment.WFv at h
+  split at h
+  · rename_i nh rs off m ident
+    have hwf : Fragment.WFv (.obj "p.FragmentHeader" [.num nh, .num rs, .num off, .num m, .num ident]) := by
+      simp only [Fragment.WFv]; exact h
+    obtain ⟨bs, l, h1, h2, h3, h4⟩ := fragment_roundtrip _ hwf
+    simp only [kFragment, PFragment.marshalM, PFragment.lenM] at h1 h2 h4
+    obtain ⟨b, hb, h1⟩ := bind_ok_inv _ _ _ h1
+    obtain ⟨rfl, _⟩ := same_ok _ _ _ _ h1
+    obtain ⟨l', hl', h2⟩ := bind_ok_inv _ _ _ h2
+    obtain ⟨rfl, _⟩ := same_ok _ _ _ _ h2
+    have hsz : bs.length = 8 := by
+      simp only [PFragment.len, Gen.protocol.FragmentHeader.Len] at hl'
+      cases hl'
+      rw [h3]; rfl
+    exact ⟨bs, hb, rfl, h.1, ⟨l, hl', h3⟩, hsz, by omega, rfl, h4⟩
+  · exact h.elim
+
+/-- the header of each kind in an IPv6 value, and its well-formedness -/
+def hdrOf (hbh rt fr : V) : ExtK → V
+  | .hbh => hbh | .rt => rt | .fr => fr
+def hdrWF (hbh rt fr : V) : ExtK → Prop
+  | .hbh => HopByHop.WFv hbh | .rt => Routing.WFv rt | .fr => Fragment.WFv fr
+instance (hbh rt fr : V) : DecidablePred (hdrWF hbh rt fr) := fun K => by cases K <;> unfold hdrWF <;> infer_instance
+
+/-- the decoder's state after it has visited the headers in `p`, ending at offset `n` with `nxt` announced -/
+def visited (hbh rt fr : V) (p : List ExtK) (st : PIPv6.XSt) (n : Nat) (nxt : UInt8) : PIPv6.XSt :=
+  { n := n, nxt := nxt, hbh := if ExtK.hbh ∈ p then hbh else st.hbh, rt := if ExtK.rt ∈ p then rt else st.rt,
+    fr := if ExtK.fr ∈ p then fr else st.fr }
+
+/-- a next-header value that announces no extension header ends both walks at once -/
+theorem chain_stop (hbh rt fr : V) (nxt : Nat) (hn : nxt < 256) (h0 : nxt ≠ Gen.protocol.Type_HBH)
+    (h1 : nxt ≠ Gen.protocol.Type_Routing) (h2 : nxt ≠ Gen.protocol.Type_Fragment) :
+    (∀ ef, 0 < ef → PIPv6.extChain hbh rt fr ef (n8 nxt) = .ok []) ∧
+    (∀ (data : Slice) (df : Nat) (st : PIPv6.XSt), st.nxt = n8 nxt → 0 < df → PIPv6.xloop data df st = .ok st) := by
+  have hnn : (n8 nxt).toNat = nxt := n8_toNat _ hn
+  constructor
+  · intro ef hef
+    obtain ⟨e, rfl⟩ : ∃ e, ef = e + 1 := ⟨ef - 1, by omega⟩
+    simp only [PIPv6.extChain, hnn, h0, h1, h2, if_false]
+  · intro data df st hst hdf
+    obtain ⟨g, rfl⟩ : ∃ g, df = g + 1 := ⟨df - 1, by omega⟩
+    simp only [PIPv6.xloop, PIPv6.xstep, hst, hnn, h0, h1, h2, if_false]
+
+/-- one step of the encoder's walk through a hop-by-hop header -/
+theorem enc_step_hbh (hbh rt fr : V) (bs : Bytes) (ws : List Bytes) (e : Nat)
+    (hf : ExtFacts PHopByHop.bytes PHopByHop.nextHeader PHopByHop.len PHopByHop.unmarshal PHopByHop.zero hbh bs)
+    (hrest : PIPv6.extChain hbh rt fr e (n8 (nhOf hbh)) = .ok ws) :
+    PIPv6.extChain hbh rt fr (e + 1) (n8 Gen.protocol.Type_HBH) = .ok (bs :: ws) := by
+  obtain ⟨f1, f2, _⟩ := hf
+  have hnn : (n8 Gen.protocol.Type_HBH).toNat = Gen.protocol.Type_HBH := rfl
+  simp only [PIPv6.extChain, hnn, if_true, f1, f2, hrest, Res.bind_ok, Res.pure_eq]
+
+/-- one step of the decoder's walk through a hop-by-hop header -/
+theorem dec_step_hbh (hbh : V) (bs pre rest : Bytes) (len g : Nat) (st t : PIPv6.XSt)
+    (hf : ExtFacts PHopByHop.bytes PHopByHop.nextHeader PHopByHop.len PHopByHop.unmarshal PHopByHop.zero hbh bs)
+    (hn : st.n = pre.length) (hx : st.nxt = n8 Gen.protocol.Type_HBH) (hl1 : pre.length + bs.length ≤ len)
+    (hl2 : len ≤ (pre ++ bs ++ rest).length)
+    (hrest : PIPv6.xloop ⟨pre ++ bs ++ rest, len⟩ g { st with n := st.n + bs.length, nxt := n8 (nhOf hbh), hbh := hbh } = .ok t) :
+    PIPv6.xloop ⟨pre ++ bs ++ rest, len⟩ (g + 1) st = .ok t := by
+  obtain ⟨f1, f2, f3, ⟨l, f4, f5⟩, f6, f7, f8, f9⟩ := hf
+  have hnn : (n8 Gen.protocol.Type_HBH).toNat = Gen.protocol.Type_HBH := rfl
+  have hstep : PIPv6.xstep ⟨pre ++ bs ++ rest, len⟩ st
+      = .ok (some { st with n := st.n + bs.length, nxt := n8 (nhOf hbh), hbh := hbh }) := by
+    simp only [PIPv6.xstep, hx, hnn, if_true]
+    rw [hn, Slice.fromR_ok _ _ (by show pre.length ≤ len; omega)]
+    simp only [Res.bind_ok]
+    have hd : List.drop pre.length (pre ++ bs ++ rest) = bs ++ rest := by simp
+    simp at hl2
+    rw [hd, f9 rest (len - pre.length) (by omega) (by simp; omega)]
+    simp only [Res.bind_ok, f2, f4, f5, Res.pure_eq]
+  unfold PIPv6.xloop
+  rw [hstep]
+  simp only
+  rw [if_neg (by simp only [not_and]; intro h; omega)]
+  exact hrest
+
+/-- one step of the encoder's walk through a routing header -/
+theorem enc_step_rt (hbh rt fr : V) (bs : Bytes) (ws : List Bytes) (e : Nat)
+    (hf : ExtFacts PRouting.bytes PRouting.nextHeader PRouting.len PRouting.unmarshal PRouting.zero rt bs)
+    (hrest : PIPv6.extChain hbh rt fr e (n8 (nhOf rt)) = .ok ws) :
+    PIPv6.extChain hbh rt fr (e + 1) (n8 Gen.protocol.Type_Routing) = .ok (bs :: ws) := by
+  obtain ⟨f1, f2, _⟩ := hf
+  have hnn : (n8 Gen.protocol.Type_Routing).toNat = Gen.protocol.Type_Routing := rfl
+  have hne : ¬ (Gen.protocol.Type_Routing = Gen.protocol.Type_HBH) := by decide
+  simp only [PIPv6.extChain, hnn, hne, if_false, if_true, f1, f2, hrest, Res.bind_ok, Res.pure_eq]
+
+/-- one step of the decoder's walk through a routing header -/
+theorem dec_step_rt (rt : V) (bs pre rest : Bytes) (len g : Nat) (st t : PIPv6.XSt)
+    (hf : ExtFacts PRouting.bytes PRouting.nextHeader PRouting.len PRouting.unmarshal PRouting.zero rt bs)
+    (hn : st.n = pre.length) (hx : st.nxt = n8 Gen.protocol.Type_Routing) (hl1 : pre.length + bs.length ≤ len)
+    (hl2 : len ≤ (pre ++ bs ++ rest).length)
+    (hrest : PIPv6.xloop ⟨pre ++ bs ++ rest, len⟩ g { st with n := st.n + bs.length, nxt := n8 (nhOf rt), rt := rt } = .ok t) :
+    PIPv6.xloop ⟨pre ++ bs ++ rest, len⟩ (g + 1) st = .ok t := by
+  obtain ⟨f1, f2, f3, ⟨l, f4, f5⟩, f6, f7, f8, f9⟩ := hf
+  have hnn : (n8 Gen.protocol.Type_Routing).toNat = Gen.protocol.Type_Routing := rfl
+  have hstep : PIPv6.xstep ⟨pre ++ bs ++ rest, len⟩ st
+      = .ok (some { st with n := st.n + bs.length, nxt := n8 (nhOf rt), rt := rt }) := by
+    have hne : ¬ (Gen.protocol.Type_Routing = Gen.protocol.Type_HBH) := by decide
+    simp only [PIPv6.xstep, hx, hnn, hne, if_false, if_true]
+    rw [hn, Slice.fromR_ok _ _ (by show pre.length ≤ len; omega)]
+    simp only [Res.bind_ok]
+    have hd : List.drop pre.length (pre ++ bs ++ rest) = bs ++ rest := by simp
+    simp at hl2
+    rw [hd, f9 rest (len - pre.length) (by omega) (by simp; omega)]
+    simp only [Res.bind_ok, f2, f4, f5, Res.pure_eq]
+  unfold PIPv6.xloop
+  rw [hstep]
+  simp only
+  rw [if_neg (by simp only [not_and]; intro h; omega)]
+  exact hrest
+
+/-- one step of the encoder's walk through a fragment header -/
+theorem enc_step_fr (hbh rt fr : V) (bs : Bytes) (ws : List Bytes) (e : Nat)
+    (hf : ExtFacts PFragment.bytes PFragment.nextHeader PFragment.len PFragment.unmarshal PFragment.zero fr bs)
+    (hrest : PIPv6.extChain hbh rt fr e (n8 (nhOf fr)) = .ok ws) :
+    PIPv6.extChain hbh rt fr (e + 1) (n8 Gen.protocol.Type_Fragment) = .ok (bs :: ws) := by
+  obtain ⟨f1, f2, _⟩ := hf
+  have hnn : (n8 Gen.protocol.Type_Fragment).toNat = Gen.protocol.Type_Fragment := rfl
+  have hne : ¬ (Gen.protocol.Type_Fragment = Gen.protocol.Type_HBH) := by decide
+  have hne2 : ¬ (Gen.protocol.Type_Fragment = Gen.protocol.Type_Routing) := by decide
+  simp only [PIPv6.extChain, hnn, hne, hne2, if_false, if_true, f1, f2, hrest, Res.bind_ok, Res.pure_eq]
+
+/-- one step of the decoder's walk through a fragment header -/
+theorem dec_step_fr (fr : V) (bs pre rest : Bytes) (len g : Nat) (st t : PIPv6.XSt)
+    (hf : ExtFacts PFragment.bytes PFragment.nextHeader PFragment.len PFragment.unmarshal PFragment.zero fr bs)
+    (hn : st.n = pre.length) (hx : st.nxt = n8 Gen.protocol.Type_Fragment) (hl1 : pre.length + bs.length ≤ len)
+    (hl2 : len ≤ (pre ++ bs ++ rest).length)
+    (hrest : PIPv6.xloop ⟨pre ++ bs ++ rest, len⟩ g { st with n := st.n + bs.length, nxt := n8 (nhOf fr), fr := fr } = .ok t) :
+    PIPv6.xloop ⟨pre ++ bs ++ rest, len⟩ (g + 1) st = .ok t := by
+  obtain ⟨f1, f2, f3, ⟨l, f4, f5⟩, f6, f7, f8, f9⟩ := hf
+  have hnn : (n8 Gen.protocol.Type_Fragment).toNat = Gen.protocol.Type_Fragment := rfl
+  have hstep : PIPv6.xstep ⟨pre ++ bs ++ rest, len⟩ st
+      = .ok (some { st with n := st.n + bs.length, nxt := n8 (nhOf fr), fr := fr }) := by
+    have hne : ¬ (Gen.protocol.Type_Fragment = Gen.protocol.Type_HBH) := by decide
+    have hne2 : ¬ (Gen.protocol.Type_Fragment = Gen.protocol.Type_Routing) := by decide
+    simp only [PIPv6.xstep, hx, hnn, hne, hne2, if_false, if_true]
+    rw [hn, Slice.fromR_ok _ _ (by show pre.length ≤ len; omega)]
+    simp only [Res.bind_ok]
+    have hd : List.drop pre.length (pre ++ bs ++ rest) = bs ++ rest := by simp
+    simp at hl2
+    rw [hd, f9 rest (len - pre.length) (by omega) (by simp; omega)]
+    simp only [Res.bind_ok, f2, f4, f5, Res.pure_eq]
+  unfold PIPv6.xloop
+  rw [hstep]
+  simp only
+  rw [if_neg (by simp only [not_and]; intro h; omega)]
+  exact hrest
+
+/-- THE CHAIN LEMMA.  Follow the next-header values from `nxt` for at most `f` headers; if every visited header is
+    well-formed and the walk ends at a value that announces no further extension header, then the encoder's walk
+    (`extChain`) emits exactly the encodings `ws` of the visited headers, and on any buffer that continues with `ws` the
+    decoder's walk (`xloop`) visits the same headers, stores each of them in its slot, and stops behind them. -/
+theorem chain_lemma (hbh rt fr : V) : ∀ (f nxt : Nat), nxt < 256 →
+    (∀ K ∈ (extPath hbh rt fr f nxt).1, hdrWF hbh rt fr K) →
+    (extPath hbh rt fr f nxt).2 ≠ Gen.protocol.Type_HBH → (extPath hbh rt fr f nxt).2 ≠ Gen.protocol.Type_Routing →
+    (extPath hbh rt fr f nxt).2 ≠ Gen.protocol.Type_Fragment →
+    ∃ ws : List Bytes,
+      ws.flatten.length = ((extPath hbh rt fr f nxt).1.map (fun K => extSize (hdrOf hbh rt fr K))).sum ∧
+      (extPath hbh rt fr f nxt).2 < 256 ∧
+      (∀ K ∈ (extPath hbh rt fr f nxt).1, (hdrOf hbh rt fr K).isNil = false) ∧
+      (∀ ef, (extPath hbh rt fr f nxt).1.length < ef → PIPv6.extChain hbh rt fr ef (n8 nxt) = .ok ws) ∧
+      (∀ (pre tail : Bytes) (len df : Nat) (st : PIPv6.XSt), st.n = pre.length → st.nxt = n8 nxt →
+        pre.length + ws.flatten.length ≤ len → len ≤ (pre ++ ws.flatten ++ tail).length →
+        (extPath hbh rt fr f nxt).1.length < df →
+        PIPv6.xloop ⟨pre ++ ws.flatten ++ tail, len⟩ df st =
+          .ok (visited hbh rt fr (extPath hbh rt fr f nxt).1 st (pre.length + ws.flatten.length)
+            (n8 (extPath hbh rt fr f nxt).2))) := by
+  intro f
+  induction f with
+  | zero =>
+    intro nxt hn _ h0 h1 h2
+    simp only [extPath] at h0 h1 h2 ⊢
+    obtain ⟨c1, c2⟩ := chain_stop hbh rt fr nxt hn h0 h1 h2
+    refine ⟨[], rfl, hn, by simp, fun ef hef => c1 ef (by simpa using hef), ?_⟩
+    intro pre tail len df st hsn hsx _ _ hdf
+    rw [c2 _ df st hsx (by simpa using hdf)]
+    cases st
+    simp [visited] at hsn hsx ⊢
+    exact ⟨hsn, hsx⟩
+  | succ f ih =>
+    intro nxt hn hwf h0 h1 h2
+    by_cases c0 : nxt = Gen.protocol.Type_HBH
+    · subst c0
+      simp only [extPath, if_true] at hwf h0 h1 h2 ⊢
+      have hX : HopByHop.WFv hbh := hwf ExtK.hbh (by simp)
+      obtain ⟨bs, hf⟩ := hbh_ext_facts hbh hX
+      obtain ⟨ws, i1, i2, i3, i4, i5⟩ := ih (nhOf hbh) hf.2.2.1 (fun K hK => hwf K (by simp [hK])) h0 h1 h2
+      refine ⟨bs :: ws, ?_, i2, ?_, ?_, ?_⟩
+      · simp only [List.flatten_cons, List.length_append, List.map_cons, List.sum_cons, i1, hdrOf, hf.2.2.2.2.1]
+      · intro K hK
+        simp at hK
+        rcases hK with rfl | hK
+        · exact hf.2.2.2.2.2.2.1
+        · exact i3 K hK
+      · intro ef hef
+        simp only [List.length_cons] at hef
+        obtain ⟨e, rfl⟩ : ∃ e, ef = e + 1 := ⟨ef - 1, by omega⟩
+        exact enc_step_hbh hbh rt fr bs ws e hf (i4 e (by omega))
+      · intro pre tail len df st hsn hsx hl1 hl2 hdf
+        obtain ⟨g, rfl⟩ : ∃ g, df = g + 1 := ⟨df - 1, by simp only [List.length_cons] at hdf; omega⟩
+        simp only [List.flatten_cons, List.length_append, List.length_cons] at hl1 hl2 hdf ⊢
+        have hbuf : pre ++ (bs ++ ws.flatten) ++ tail = pre ++ bs ++ (ws.flatten ++ tail) := by
+          simp only [List.append_assoc]
+        rw [hbuf]
+        apply dec_step_hbh hbh bs pre (ws.flatten ++ tail) len g st _ hf hsn hsx (by omega)
+          (by simp only [List.length_append]; omega)
+        have := i5 (pre ++ bs) tail len g { st with n := st.n + bs.length, nxt := n8 (nhOf hbh), hbh := hbh }
+          (by simp only [List.length_append, hsn]) rfl (by simp only [List.length_append]; omega)
+          (by simp only [List.length_append]; omega) (by omega)
+        have hbuf2 : pre ++ bs ++ ws.flatten ++ tail = pre ++ bs ++ (ws.flatten ++ tail) := by
+          simp only [List.append_assoc]
+        rw [hbuf2] at this
+        rw [this]
+        simp [visited, Nat.add_assoc]
+    · by_cases c1 : nxt = Gen.protocol.Type_Routing
+      · subst c1
+        have hne : ¬ (Gen.protocol.Type_Routing = Gen.protocol.Type_HBH) := by decide
+        simp only [extPath, hne, if_false, if_true] at hwf h0 h1 h2 ⊢
+        have hX : Routing.WFv rt := hwf ExtK.rt (by simp)
+        obtain ⟨bs, hf⟩ := routing_ext_facts rt hX
+        obtain ⟨ws, i1, i2, i3, i4, i5⟩ := ih (nhOf rt) hf.2.2.1 (fun K hK => hwf K (by simp [hK])) h0 h1 h2
+        refine ⟨bs :: ws, ?_, i2, ?_, ?_, ?_⟩
+        · simp only [List.flatten_cons, List.length_append, List.map_cons, List.sum_cons, i1, hdrOf, hf.2.2.2.2.1]
+        · intro K hK
+          simp at hK
+          rcases hK with rfl | hK
+          · exact hf.2.2.2.2.2.2.1
+          · exact i3 K hK
+        · intro ef hef
+          simp only [List.length_cons] at hef
+          obtain ⟨e, rfl⟩ : ∃ e, ef = e + 1 := ⟨ef - 1, by omega⟩
+          exact enc_step_rt hbh rt fr bs ws e hf (i4 e (by omega))
+        · intro pre tail len df st hsn hsx hl1 hl2 hdf
+          obtain ⟨g, rfl⟩ : ∃ g, df = g + 1 := ⟨df - 1, by simp only [List.length_cons] at hdf; omega⟩
+          simp only [List.flatten_cons, List.length_append, List.length_cons] at hl1 hl2 hdf ⊢
+          have hbuf : pre ++ (bs ++ ws.flatten) ++ tail = pre ++ bs ++ (ws.flatten ++ tail) := by
+            simp only [List.append_assoc]
+          rw [hbuf]
+          apply dec_step_rt rt bs pre (ws.flatten ++ tail) len g st _ hf hsn hsx (by omega)
+            (by simp only [List.length_append]; omega)
+          have := i5 (pre ++ bs) tail len g { st with n := st.n + bs.length, nxt := n8 (nhOf rt), rt := rt }
+            (by simp only [List.length_append, hsn]) rfl (by simp only [List.length_append]; omega)
+            (by simp only [List.length_append]; omega) (by omega)
+          have hbuf2 : pre ++ bs ++ ws.flatten ++ tail = pre ++ bs ++ (ws.flatten ++ tail) := by
+            simp only [List.append_assoc]
+          rw [hbuf2] at this
+          rw [this]
+          simp [visited, Nat.add_assoc]
+      · by_cases c2 : nxt = Gen.protocol.Type_Fragment
+        · subst c2
+          have hne : ¬ (Gen.protocol.Type_Fragment = Gen.protocol.Type_HBH) := by decide
+          have hne2 : ¬ (Gen.protocol.Type_Fragment = Gen.protocol.Type_Routing) := by decide
+          simp only [extPath, hne, hne2, if_false, if_true] at hwf h0 h1 h2 ⊢
+          have hX : Fragment.WFv fr := hwf ExtK.fr (by simp)
+          obtain ⟨bs, hf⟩ := fragment_ext_facts fr hX
+          obtain ⟨ws, i1, i2, i3, i4, i5⟩ := ih (nhOf fr) hf.2.2.1 (fun K hK => hwf K (by simp [hK])) h0 h1 h2
+          refine ⟨bs :: ws, ?_, i2, ?_, ?_, ?_⟩
+          · simp only [List.flatten_cons, List.length_append, List.map_cons, List.sum_cons, i1, hdrOf, hf.2.2.2.2.1]
+          · intro K hK
+            simp at hK
+            rcases hK with rfl | hK
+            · exact hf.2.2.2.2.2.2.1
+            · exact i3 K hK
+          · intro ef hef
+            simp only [List.length_cons] at hef
+            obtain ⟨e, rfl⟩ : ∃ e, ef = e + 1 := ⟨ef - 1, by omega⟩
+            exact enc_step_fr hbh rt fr bs ws e hf (i4 e (by omega))
+          · intro pre tail len df st hsn hsx hl1 hl2 hdf
+            obtain ⟨g, rfl⟩ : ∃ g, df = g + 1 := ⟨df - 1, by simp only [List.length_cons] at hdf; omega⟩
+            simp only [List.flatten_cons, List.length_append, List.length_cons] at hl1 hl2 hdf ⊢
+            have hbuf : pre ++ (bs ++ ws.flatten) ++ tail = pre ++ bs ++ (ws.flatten ++ tail) := by
+              simp only [List.append_assoc]
+            rw [hbuf]
+            apply dec_step_fr fr bs pre (ws.flatten ++ tail) len g st _ hf hsn hsx (by omega)
+              (by simp only [List.length_append]; omega)
+            have := i5 (pre ++ bs) tail len g { st with n := st.n + bs.length, nxt := n8 (nhOf fr), fr := fr }
+              (by simp only [List.length_append, hsn]) rfl (by simp only [List.length_append]; omega)
+              (by simp only [List.length_append]; omega) (by omega)
+            have hbuf2 : pre ++ bs ++ ws.flatten ++ tail = pre ++ bs ++ (ws.flatten ++ tail) := by
+              simp only [List.append_assoc]
+            rw [hbuf2] at this
+            rw [this]
+            simp [visited, Nat.add_assoc]
+        · simp only [extPath, c0, c1, c2, if_false] at h0 h1 h2 ⊢
+          obtain ⟨e1, e2⟩ := chain_stop hbh rt fr nxt hn c0 c1 c2
+          refine ⟨[], rfl, hn, by simp, fun ef hef => e1 ef (by simpa using hef), ?_⟩
+          intro pre tail len df st hsn hsx _ _ hdf
+          rw [e2 _ df st hsx (by simpa using hdf)]
+          cases st
+          simp [visited] at hsn hsx ⊢
+          exact ⟨hsn, hsx⟩
+
+/-- the walk visits at most `fuel` headers -/
+theorem extPath_length (hbh rt fr : V) : ∀ f nxt, (extPath hbh rt fr f nxt).1.length ≤ f := by
+  intro f
+  induction f with
+  | zero => intro nxt; simp [extPath]
+  | succ f ih =>
+    intro nxt
+    simp only [extPath]
+    split
+    · simp only [List.length_cons]; have := ih (nhOf hbh); omega
+    · split
+      · simp only [List.length_cons]; have := ih (nhOf rt); omega
+      · split
+        · simp only [List.length_cons]; have := ih (nhOf fr); omega
+        · simp
+
+/-- summing over a duplicate-free list of header kinds = summing over the kinds that occur -/
+theorem nodup_sum (g : ExtK → Nat) : ∀ (p : List ExtK), p.Nodup →
+    (p.map g).sum = (if ExtK.hbh ∈ p then g .hbh else 0) + (if ExtK.rt ∈ p then g .rt else 0) +
+      (if ExtK.fr ∈ p then g .fr else 0) := by
+  intro p
+  induction p with
+  | nil => intro _; rfl
+  | cons K p ih =>
+    intro hnd
+    rw [List.nodup_cons] at hnd
+    have := ih hnd.2
+    simp only [List.map_cons, List.sum_cons, this]
+    cases K <;> simp_all <;> omega
+
+/-- well-formed IPv6 packet: version 4 bits, traffic class 8 bits, flow label 20 bits, 16-bit length, 8-bit next header /
+    hop limit, 16-byte addresses; the walk along the next-header values (starting at `NextHeader`, through the
+    `NextHeader` fields of the hop-by-hop / routing / fragment headers present) visits no header twice, every visited
+    header is well-formed, every header NOT visited is absent (nil), the walk ends at a value announcing the payload
+    that is present, and the total size fits 16 bits -/
+def IPv6.WFv : V → Prop
+  | .obj "p.IPv6" [.num ver, .num tc, .num fl, .num ln, .num nh, .num hl, .bytes src, .bytes dst, hbh, rt, fr, dat] =>
+    ver < 16 ∧ tc < 256 ∧ fl < 1048576 ∧ ln < 65536 ∧ nh < 256 ∧ hl < 256 ∧ src.length = 16 ∧ dst.length = 16 ∧
+      (extPath hbh rt fr 3 nh).1.Nodup ∧
+      (extPath hbh rt fr 3 nh).2 ≠ Gen.protocol.Type_HBH ∧ (extPath hbh rt fr 3 nh).2 ≠ Gen.protocol.Type_Routing ∧
+      (extPath hbh rt fr 3 nh).2 ≠ Gen.protocol.Type_Fragment ∧
+      (∀ K ∈ (extPath hbh rt fr 3 nh).1, hdrWF hbh rt fr K) ∧
+      (ExtK.hbh ∉ (extPath hbh rt fr 3 nh).1 → hbh.isNil = true) ∧
+      (ExtK.rt ∉ (extPath hbh rt fr 3 nh).1 → rt.isNil = true) ∧
+      (ExtK.fr ∉ (extPath hbh rt fr 3 nh).1 → fr.isNil = true) ∧
+      IPv6.PayloadOK (extPath hbh rt fr 3 nh).2 dat ∧
+      40 + extSize hbh + extSize rt + extSize fr + paySize dat < 65536
+  | _ => False
+instance : DecidablePred IPv6.WFv := fun v => by unfold IPv6.WFv; split <;> infer_instance
+
+/-- `Len()` of an optional extension header (0 when absent) is `extSize` -/
+theorem optlen_of_facts (len : V → R UInt16) (X : V)
+    (h : X.isNil = true ∨ ∃ (bs : Bytes) (l : UInt16), len X = .ok l ∧ bs.length = l.toNat ∧ bs.length = extSize X ∧ X.isNil = false) :
+    ∃ l, PIPv6.optLen len X = .ok l ∧ l.toNat = extSize X := by
+  rcases h with h | ⟨bs, l, h1, h2, h3, h4⟩
+  · rw [isNil_eq X h]
+    exact ⟨0, rfl, rfl⟩
+  · exact ⟨l, by simp [PIPv6.optLen, h4, h1], by omega⟩
 
 /-- encoded size of an admissible Ethernet payload -/
 def frameSize : V → Nat
   | .obj "p.IPv4" [_, .num ihl, _, _, _, _, _, _, _, _, _, _, _, _, dat] => 4 * ihl + paySize dat
+  | .obj "p.IPv6" [_, _, _, _, _, _, _, _, hbh, rt, fr, dat] => 40 + extSize hbh + extSize rt + extSize fr + paySize dat
   | .obj "p.ARP" _ => 28
   | v => paySize v
 
+/-- IPv6 round trip, with the encoded size made explicit -/
+theorem ipv6_roundtrip_size_at (d : Nat) (v : V) (h : IPv6.WFv v) :
+    ∃ bs l, (kIPv6At d).marshalM v = .ok (bs, v) ∧ (kIPv6At d).lenM v = .ok (l, v) ∧ bs.length = l.toNat ∧
+      l.toNat = frameSize v ∧ ∀ spare, (kIPv6At d).unmarshal (kIPv6At d).zero ⟨bs ++ spare, bs.length⟩ = .ok v := by
+  unfold IPv6.WFv at h
+  split at h
+  · rename_i ver tc fl ln nh hl src dst hbh rt fr dat
+    obtain ⟨h1, h2, h3, h4, h5, h6, h7, h8, hnd, hl0, hl1, hl2, hwfK, hnH, hnR, hnF, h12, h13⟩ := h
+    obtain ⟨ws, w1, w2, w3, w4, w5⟩ := chain_lemma hbh rt fr 3 nh h5 hwfK hl0 hl1 hl2
+    generalize hP : (extPath hbh rt fr 3 nh).1 = P at *
+    generalize hlast : (extPath hbh rt fr 3 nh).2 = last at *
+    have hPlen : P.length ≤ 3 := by rw [← hP]; exact extPath_length hbh rt fr 3 nh
+    obtain ⟨hnil, pb, pl, hpl, hpm, hpbl, hps, hpdec⟩ := ipv6_payload_facts last w2 dat h12 d
+    obtain ⟨s0, s1, s2, s3, s4, s5, s6, s7, s8, s9, s10, s11, s12, s13, s14, s15, rfl⟩ := bytes_len16 src h7
+    obtain ⟨d0, d1, d2, d3, d4, d5, d6, d7, d8, d9, d10, d11, d12, d13, d14, d15, rfl⟩ := bytes_len16 dst h8
+    -- sizes of the three optional headers
+    have eH : hbh.isNil = true ∨ ∃ (bs : Bytes) (l : UInt16), PHopByHop.len hbh = .ok l ∧ bs.length = l.toNat ∧
+        bs.length = extSize hbh ∧ hbh.isNil = false := by
+      by_cases hm : ExtK.hbh ∈ P
+      · obtain ⟨bs, _, _, _, ⟨l, q1, q2⟩, q3, _, q4, _⟩ := hbh_ext_facts hbh (hwfK _ hm)
+        exact Or.inr ⟨bs, l, q1, q2, q3, q4⟩
+      · exact Or.inl (hnH hm)
+    have eR : rt.isNil = true ∨ ∃ (bs : Bytes) (l : UInt16), PRouting.len rt = .ok l ∧ bs.length = l.toNat ∧
+        bs.length = extSize rt ∧ rt.isNil = false := by
+      by_cases hm : ExtK.rt ∈ P
+      · obtain ⟨bs, _, _, _, ⟨l, q1, q2⟩, q3, _, q4, _⟩ := routing_ext_facts rt (hwfK _ hm)
+        exact Or.inr ⟨bs, l, q1, q2, q3, q4⟩
+      · exact Or.inl (hnR hm)
+    have eF : fr.isNil = true ∨ ∃ (bs : Bytes) (l : UInt16), PFragment.len fr = .ok l ∧ bs.length = l.toNat ∧
+        bs.length = extSize fr ∧ fr.isNil = false := by
+      by_cases hm : ExtK.fr ∈ P
+      · obtain ⟨bs, _, _, _, ⟨l, q1, q2⟩, q3, _, q4, _⟩ := fragment_ext_facts fr (hwfK _ hm)
+        exact Or.inr ⟨bs, l, q1, q2, q3, q4⟩
+      · exact Or.inl (hnF hm)
+    obtain ⟨lH, lH1, lH2⟩ := optlen_of_facts PHopByHop.len hbh eH
+    obtain ⟨lR, lR1, lR2⟩ := optlen_of_facts PRouting.len rt eR
+    obtain ⟨lF, lF1, lF2⟩ := optlen_of_facts PFragment.len fr eF
+    have hW : ws.flatten.length = extSize hbh + extSize rt + extSize fr := by
+      rw [w1, nodup_sum _ P hnd]
+      simp only [hdrOf]
+      have z : extSize V.nil = 0 := rfl
+      have t1 : (if ExtK.hbh ∈ P then extSize hbh else 0) = extSize hbh := by
+        by_cases hm : ExtK.hbh ∈ P
+        · rw [if_pos hm]
+        · rw [if_neg hm, isNil_eq _ (hnH hm), z]
+      have t2 : (if ExtK.rt ∈ P then extSize rt else 0) = extSize rt := by
+        by_cases hm : ExtK.rt ∈ P
+        · rw [if_pos hm]
+        · rw [if_neg hm, isNil_eq _ (hnR hm), z]
+      have t3 : (if ExtK.fr ∈ P then extSize fr else 0) = extSize fr := by
+        by_cases hm : ExtK.fr ∈ P
+        · rw [if_pos hm]
+        · rw [if_neg hm, isNil_eq _ (hnF hm), z]
+      rw [t1, t2, t3]
+    have hnh : (n8 nh).toNat = nh := n8_toNat _ h5
+    have hL : ((40 : UInt16) + lH + lR + lF + pl).toNat = 40 + ws.flatten.length + pb.length := by
+      simp only [UInt16.toNat_add, lH2, lR2, lF2, hpbl, hW]
+      have : (40 : UInt16).toNat = 40 := rfl
+      rw [this, hps]; omega
+    have hlenW : PIPv6.lenW (protoAnyLenD (d + 1)) (.obj "p.IPv6" [.num ver, .num tc, .num fl, .num ln, .num nh, .num hl,
+        .bytes [s0, s1, s2, s3, s4, s5, s6, s7, s8, s9, s10, s11, s12, s13, s14, s15],
+        .bytes [d0, d1, d2, d3, d4, d5, d6, d7, d8, d9, d10, d11, d12, d13, d14, d15], hbh, rt, fr, dat])
+        = .ok ((40 : UInt16) + lH + lR + lF + pl, .obj "p.IPv6" [.num ver, .num tc, .num fl, .num ln, .num nh, .num hl,
+        .bytes [s0, s1, s2, s3, s4, s5, s6, s7, s8, s9, s10, s11, s12, s13, s14, s15],
+        .bytes [d0, d1, d2, d3, d4, d5, d6, d7, d8, d9, d10, d11, d12, d13, d14, d15], hbh, rt, fr, dat]) := by
+      simp [PIPv6.lenW, lH1, lR1, lF1, hpl]
+    obtain ⟨l1, l2, l3⟩ := lane_ipv6_version_class_flow (n8 ver) (n8 tc) (n32 fl) (by rw [n8_toNat _ (by omega)]; exact h1)
+      (by rw [n32_toNat _ (by omega)]; exact h3)
+    have l3' : PIPv6.unpackFlow (mk32 (PIPv6.packB0 (n8 ver) (n8 tc)) (PIPv6.packB1 (n8 tc) (n32 fl))
+        (hi16 (PIPv6.packLo (n32 fl))) (lo16 (PIPv6.packLo (n32 fl)))) = n32 fl := l3 _ (rd32_cons _ _ _ _ [])
+    refine ⟨[PIPv6.packB0 (n8 ver) (n8 tc), PIPv6.packB1 (n8 tc) (n32 fl)] ++ be16 (PIPv6.packLo (n32 fl)) ++ be16 (n16 ln) ++
+      [n8 nh, n8 hl] ++ [s0, s1, s2, s3, s4, s5, s6, s7, s8, s9, s10, s11, s12, s13, s14, s15] ++
+      [d0, d1, d2, d3, d4, d5, d6, d7, d8, d9, d10, d11, d12, d13, d14, d15] ++ ws.flatten ++ pb, (40 : UInt16) + lH + lR + lF + pl, ?_⟩
+    refine ⟨?_, ?_, ?_, ?_, ?_⟩
+    · simp only [kIPv6At, PIPv6.marshalW, hlenW, Res.bind_ok, hL, hnil, hpm]
+      have hch : PIPv6.extChain hbh rt fr ((40 + ws.flatten.length + pb.length) / 8 + 2) (n8 nh) = .ok ws :=
+        w4 _ (by omega)
+      have hpre : ∀ p ∈ [Piece.put [PIPv6.packB0 (n8 ver) (n8 tc)], Piece.put [PIPv6.packB1 (n8 tc) (n32 fl)],
+              Piece.put (be16 (PIPv6.packLo (n32 fl))), pU16 ln, pU8 nh, pU8 hl,
+              pCopyAdv [s0, s1, s2, s3, s4, s5, s6, s7, s8, s9, s10, s11, s12, s13, s14, s15] 16,
+              pCopyAdv [d0, d1, d2, d3, d4, d5, d6, d7, d8, d9, d10, d11, d12, d13, d14, d15] 16], p.Tight := by
+        simp [Piece.Tight, pU8, pU16, pCopyAdv]
+      have hplen : piecesLen [Piece.put [PIPv6.packB0 (n8 ver) (n8 tc)], Piece.put [PIPv6.packB1 (n8 tc) (n32 fl)],
+              Piece.put (be16 (PIPv6.packLo (n32 fl))), pU16 ln, pU8 nh, pU8 hl,
+              pCopyAdv [s0, s1, s2, s3, s4, s5, s6, s7, s8, s9, s10, s11, s12, s13, s14, s15] 16,
+              pCopyAdv [d0, d1, d2, d3, d4, d5, d6, d7, d8, d9, d10, d11, d12, d13, d14, d15] 16] = 40 := by
+        simp [piecesLen, Piece.adv, pU8, pU16, pCopyAdv]
+      have hpbb : piecesBytes [Piece.put [PIPv6.packB0 (n8 ver) (n8 tc)], Piece.put [PIPv6.packB1 (n8 tc) (n32 fl)],
+              Piece.put (be16 (PIPv6.packLo (n32 fl))), pU16 ln, pU8 nh, pU8 hl,
+              pCopyAdv [s0, s1, s2, s3, s4, s5, s6, s7, s8, s9, s10, s11, s12, s13, s14, s15] 16,
+              pCopyAdv [d0, d1, d2, d3, d4, d5, d6, d7, d8, d9, d10, d11, d12, d13, d14, d15] 16] =
+          [PIPv6.packB0 (n8 ver) (n8 tc), PIPv6.packB1 (n8 tc) (n32 fl)] ++ be16 (PIPv6.packLo (n32 fl)) ++ be16 (n16 ln) ++
+      [n8 nh, n8 hl] ++ [s0, s1, s2, s3, s4, s5, s6, s7, s8, s9, s10, s11, s12, s13, s14, s15] ++
+      [d0, d1, d2, d3, d4, d5, d6, d7, d8, d9, d10, d11, d12, d13, d14, d15] := by
+        simp [piecesBytes, Piece.bytes, pU8, pU16, pCopyAdv, zeros]
+      obtain ⟨o, ho⟩ := fill_ok_le (40 + ws.flatten.length + pb.length) _ hpre (by rw [hplen]; omega)
+      rw [ho, hch]
+      simp only [Res.bind_ok, Bool.false_eq_true, if_false]
+      obtain ⟨cp1, cp2, cp3⟩ := copy_pieces ws
+      have hpre2 : ∀ p ∈ [Piece.put [PIPv6.packB0 (n8 ver) (n8 tc)], Piece.put [PIPv6.packB1 (n8 tc) (n32 fl)],
+              Piece.put (be16 (PIPv6.packLo (n32 fl))), pU16 ln, pU8 nh, pU8 hl,
+              pCopyAdv [s0, s1, s2, s3, s4, s5, s6, s7, s8, s9, s10, s11, s12, s13, s14, s15] 16,
+              pCopyAdv [d0, d1, d2, d3, d4, d5, d6, d7, d8, d9, d10, d11, d12, d13, d14, d15] 16] ++ List.map pCopy ws ++ [pCopy []], p.Tight := by
+        intro p hp
+        rw [List.mem_append, List.mem_append] at hp
+        rcases hp with (hp | hp) | hp
+        · exact hpre p hp
+        · exact cp3 p hp
+        · simp at hp; subst hp; simp [Piece.Tight, pCopy]
+      have hplen2 : piecesLen ([Piece.put [PIPv6.packB0 (n8 ver) (n8 tc)], Piece.put [PIPv6.packB1 (n8 tc) (n32 fl)],
+              Piece.put (be16 (PIPv6.packLo (n32 fl))), pU16 ln, pU8 nh, pU8 hl,
+              pCopyAdv [s0, s1, s2, s3, s4, s5, s6, s7, s8, s9, s10, s11, s12, s13, s14, s15] 16,
+              pCopyAdv [d0, d1, d2, d3, d4, d5, d6, d7, d8, d9, d10, d11, d12, d13, d14, d15] 16] ++ List.map pCopy ws ++ [pCopy []]) = 40 + ws.flatten.length := by
+        unfold piecesLen at hplen cp2 ⊢
+        rw [List.map_append, List.map_append, List.sum_append, List.sum_append, hplen, cp2]
+        simp [Piece.adv, pCopy]
+      have hpbb2 : piecesBytes ([Piece.put [PIPv6.packB0 (n8 ver) (n8 tc)], Piece.put [PIPv6.packB1 (n8 tc) (n32 fl)],
+              Piece.put (be16 (PIPv6.packLo (n32 fl))), pU16 ln, pU8 nh, pU8 hl,
+              pCopyAdv [s0, s1, s2, s3, s4, s5, s6, s7, s8, s9, s10, s11, s12, s13, s14, s15] 16,
+              pCopyAdv [d0, d1, d2, d3, d4, d5, d6, d7, d8, d9, d10, d11, d12, d13, d14, d15] 16] ++ List.map pCopy ws ++ [pCopy []]) =
+          [PIPv6.packB0 (n8 ver) (n8 tc), PIPv6.packB1 (n8 tc) (n32 fl)] ++ be16 (PIPv6.packLo (n32 fl)) ++ be16 (n16 ln) ++
+      [n8 nh, n8 hl] ++ [s0, s1, s2, s3, s4, s5, s6, s7, s8, s9, s10, s11, s12, s13, s14, s15] ++
+      [d0, d1, d2, d3, d4, d5, d6, d7, d8, d9, d10, d11, d12, d13, d14, d15] ++ ws.flatten := by
+        unfold piecesBytes at hpbb cp1 ⊢
+        rw [List.map_append, List.map_append, List.flatten_append, List.flatten_append, hpbb, cp1]
+        simp [Piece.bytes, pCopy]
+      rw [fill_exact _ _ hpre2 (by rw [hplen2]; omega), hplen2, hpbb2]
+      simp only [Res.bind_ok]
+      have hfl : ([PIPv6.packB0 (n8 ver) (n8 tc), PIPv6.packB1 (n8 tc) (n32 fl)] ++ be16 (PIPv6.packLo (n32 fl)) ++ be16 (n16 ln) ++
+      [n8 nh, n8 hl] ++ [s0, s1, s2, s3, s4, s5, s6, s7, s8, s9, s10, s11, s12, s13, s14, s15] ++
+      [d0, d1, d2, d3, d4, d5, d6, d7, d8, d9, d10, d11, d12, d13, d14, d15] ++ ws.flatten).length = 40 + ws.flatten.length := by
+        simp only [List.length_append, List.length_cons, List.length_nil, be16_length]
+      have hk : 40 + ws.flatten.length + pb.length - (40 + ws.flatten.length) = pb.length := by omega
+      rw [hk]
+      conv => lhs; arg 1; arg 2; rw [← hfl]
+      rw [fillFrom_exact _ [pCopy pb] pb.length (by simp [Piece.Tight, pCopy]) (by simp [piecesLen, Piece.adv, pCopy])]
+      simp [piecesBytes, Piece.bytes, piecesLen, Piece.adv, pCopy, zeros]
+    · simp only [kIPv6At, hlenW]
+    · rw [hL]; simp only [List.length_append, List.length_cons, List.length_nil, be16_length]
+    · rw [hL, hW, hpbl, hps]; simp only [frameSize]; omega
+    · intro spare
+      generalize hWF : ws.flatten = wf at *
+      have hbl : (([PIPv6.packB0 (n8 ver) (n8 tc), PIPv6.packB1 (n8 tc) (n32 fl)] ++ be16 (PIPv6.packLo (n32 fl)) ++ be16 (n16 ln) ++
+      [n8 nh, n8 hl] ++ [s0, s1, s2, s3, s4, s5, s6, s7, s8, s9, s10, s11, s12, s13, s14, s15] ++
+      [d0, d1, d2, d3, d4, d5, d6, d7, d8, d9, d10, d11, d12, d13, d14, d15]) ++ wf ++ pb).length = 40 + wf.length + pb.length := by
+        simp only [List.length_append, List.length_cons, List.length_nil, be16_length]
+      rw [hbl]
+      simp only [kIPv6At]
+      unfold PIPv6.unmarshal
+      have hx := w5 (([PIPv6.packB0 (n8 ver) (n8 tc), PIPv6.packB1 (n8 tc) (n32 fl)] ++ be16 (PIPv6.packLo (n32 fl)) ++ be16 (n16 ln) ++
+      [n8 nh, n8 hl] ++ [s0, s1, s2, s3, s4, s5, s6, s7, s8, s9, s10, s11, s12, s13, s14, s15] ++
+      [d0, d1, d2, d3, d4, d5, d6, d7, d8, d9, d10, d11, d12, d13, d14, d15])) (pb ++ spare) (40 + wf.length + pb.length) (40 + wf.length + pb.length + 4)
+        { n := 40, nxt := n8 nh, hbh := .nil, rt := .nil, fr := .nil } rfl rfl
+        (by simp only [List.length_append, List.length_cons, List.length_nil, be16_length]; omega)
+        (by simp only [List.length_append, List.length_cons, List.length_nil, be16_length]; omega) (by omega)
+      rw [show (([PIPv6.packB0 (n8 ver) (n8 tc), PIPv6.packB1 (n8 tc) (n32 fl)] ++ be16 (PIPv6.packLo (n32 fl)) ++ be16 (n16 ln) ++
+      [n8 nh, n8 hl] ++ [s0, s1, s2, s3, s4, s5, s6, s7, s8, s9, s10, s11, s12, s13, s14, s15] ++
+      [d0, d1, d2, d3, d4, d5, d6, d7, d8, d9, d10, d11, d12, d13, d14, d15])).length = 40 from rfl] at hx
+      have hassoc : ([PIPv6.packB0 (n8 ver) (n8 tc), PIPv6.packB1 (n8 tc) (n32 fl)] ++ be16 (PIPv6.packLo (n32 fl)) ++ be16 (n16 ln) ++
+      [n8 nh, n8 hl] ++ [s0, s1, s2, s3, s4, s5, s6, s7, s8, s9, s10, s11, s12, s13, s14, s15] ++
+      [d0, d1, d2, d3, d4, d5, d6, d7, d8, d9, d10, d11, d12, d13, d14, d15]) ++ wf ++ (pb ++ spare) = ([PIPv6.packB0 (n8 ver) (n8 tc), PIPv6.packB1 (n8 tc) (n32 fl)] ++ be16 (PIPv6.packLo (n32 fl)) ++ be16 (n16 ln) ++
+      [n8 nh, n8 hl] ++ [s0, s1, s2, s3, s4, s5, s6, s7, s8, s9, s10, s11, s12, s13, s14, s15] ++
+      [d0, d1, d2, d3, d4, d5, d6, d7, d8, d9, d10, d11, d12, d13, d14, d15]) ++ wf ++ pb ++ spare := by
+        simp only [List.append_assoc]
+      rw [hassoc] at hx
+      have hrr : (⟨([PIPv6.packB0 (n8 ver) (n8 tc), PIPv6.packB1 (n8 tc) (n32 fl)] ++ be16 (PIPv6.packLo (n32 fl)) ++ be16 (n16 ln) ++
+      [n8 nh, n8 hl] ++ [s0, s1, s2, s3, s4, s5, s6, s7, s8, s9, s10, s11, s12, s13, s14, s15] ++
+      [d0, d1, d2, d3, d4, d5, d6, d7, d8, d9, d10, d11, d12, d13, d14, d15]) ++ wf ++ pb ++ spare, 40 + wf.length + pb.length⟩ : Slice).fromR (40 + wf.length)
+          = .ok ⟨pb ++ spare, pb.length⟩ := by
+        rw [Slice.fromR_ok _ _ (by show 40 + wf.length ≤ 40 + wf.length + pb.length; omega)]
+        have hpl2 : (([PIPv6.packB0 (n8 ver) (n8 tc), PIPv6.packB1 (n8 tc) (n32 fl)] ++ be16 (PIPv6.packLo (n32 fl)) ++ be16 (n16 ln) ++
+      [n8 nh, n8 hl] ++ [s0, s1, s2, s3, s4, s5, s6, s7, s8, s9, s10, s11, s12, s13, s14, s15] ++
+      [d0, d1, d2, d3, d4, d5, d6, d7, d8, d9, d10, d11, d12, d13, d14, d15]) ++ wf).length = 40 + wf.length := by
+          simp only [List.length_append, List.length_cons, List.length_nil, be16_length]
+        congr 2
+        · rw [List.append_assoc _ pb spare, ← hpl2, List.drop_left]
+        · show 40 + wf.length + pb.length - (40 + wf.length) = pb.length; omega
+      generalize hdata : (⟨([PIPv6.packB0 (n8 ver) (n8 tc), PIPv6.packB1 (n8 tc) (n32 fl)] ++ be16 (PIPv6.packLo (n32 fl)) ++ be16 (n16 ln) ++
+      [n8 nh, n8 hl] ++ [s0, s1, s2, s3, s4, s5, s6, s7, s8, s9, s10, s11, s12, s13, s14, s15] ++
+      [d0, d1, d2, d3, d4, d5, d6, d7, d8, d9, d10, d11, d12, d13, d14, d15]) ++ wf ++ pb ++ spare, 40 + wf.length + pb.length⟩ : Slice) = data at hx hrr ⊢
+      have a0 : 0 < 40 + wf.length + pb.length := by omega
+      have a1 : 1 < 40 + wf.length + pb.length := by omega
+      have a6 : 6 < 40 + wf.length + pb.length := by omega
+      have a7 : 7 < 40 + wf.length + pb.length := by omega
+      have c4 : 4 ≤ 40 + wf.length + pb.length := by omega
+      have b4 : 2 ≤ 40 + wf.length + pb.length - 4 := by omega
+      have r0 : data.byteAt 0 = .ok (PIPv6.packB0 (n8 ver) (n8 tc)) := by rw [← hdata]; rt_reads [a0]
+      have r1 : data.byteAt 1 = .ok (PIPv6.packB1 (n8 tc) (n32 fl)) := by rw [← hdata]; rt_reads [a1]
+      have rw4 : data.u32In 0 4 = .ok (mk32 (PIPv6.packB0 (n8 ver) (n8 tc)) (PIPv6.packB1 (n8 tc) (n32 fl))
+          (hi16 (PIPv6.packLo (n32 fl))) (lo16 (PIPv6.packLo (n32 fl)))) := by rw [← hdata]; rt_reads []
+      have r4 : data.u16From 4 = .ok (n16 ln) := by rw [← hdata]; rt_reads [c4, b4]
+      have r6 : data.byteAt 6 = .ok (n8 nh) := by rw [← hdata]; rt_reads [a6]
+      have r7 : data.byteAt 7 = .ok (n8 hl) := by rw [← hdata]; rt_reads [a7]
+      have r8 : data.sliceR 8 24 = .ok ⟨[s0, s1, s2, s3, s4, s5, s6, s7, s8, s9, s10, s11, s12, s13, s14, s15] ++
+          ([d0, d1, d2, d3, d4, d5, d6, d7, d8, d9, d10, d11, d12, d13, d14, d15] ++ wf ++ pb ++ spare), 16⟩ := by
+        rw [← hdata]; rt_reads []
+      have r24 : data.sliceR 24 40 = .ok ⟨[d0, d1, d2, d3, d4, d5, d6, d7, d8, d9, d10, d11, d12, d13, d14, d15] ++
+          (wf ++ pb ++ spare), 16⟩ := by
+        rw [← hdata]; rt_reads []
+      have rl : data.len = 40 + wf.length + pb.length := by rw [← hdata]
+      have e1 : ¬ (40 + wf.length + pb.length < 40) := by omega
+      simp only [r0, r1, rw4, r4, r6, r7, r8, r24, rl, Res.bind_ok, e1, if_false, PIPv6.zero, hx, visited, hrr]
+      have hdec := hpdec spare
+      unfold ipv6PayloadDecode at hdec
+      rw [← bind_ite, ← bind_ite, hdec]
+      have vH : (if ExtK.hbh ∈ P then hbh else V.nil) = hbh := by
+        by_cases hm : ExtK.hbh ∈ P
+        · rw [if_pos hm]
+        · rw [if_neg hm, isNil_eq _ (hnH hm)]
+      have vR : (if ExtK.rt ∈ P then rt else V.nil) = rt := by
+        by_cases hm : ExtK.rt ∈ P
+        · rw [if_pos hm]
+        · rw [if_neg hm, isNil_eq _ (hnR hm)]
+      have vF : (if ExtK.fr ∈ P then fr else V.nil) = fr := by
+        by_cases hm : ExtK.fr ∈ P
+        · rw [if_pos hm]
+        · rw [if_neg hm, isNil_eq _ (hnF hm)]
+      simp [Slice.bytes, makeCopy_self, l1, l2, l3', u8_n8, u16_n16, u32_n32, h2, h4, h5, h6, (by omega : ver < 256),
+        (by omega : fl < 4294967296), vH, vR, vF]
+  · exact h.elim
+
+/-- a well-formed IPv6 packet round-trips, at any nesting depth -/
+theorem ipv6_roundtrip_at (d : Nat) (v : V) (h : IPv6.WFv v) : RoundTrip (kIPv6At d) v := by
+  obtain ⟨bs, l, h1, h2, h3, _, h5⟩ := ipv6_roundtrip_size_at d v h
+  exact ⟨bs, l, h1, h2, h3, h5⟩
+
+/-- a well-formed IPv6 packet — header lanes, any admissible chain of hop-by-hop / routing / fragment headers in the order
+    the next-header values give, ICMPv6 / UDP / opaque payload — round-trips -/
+theorem ipv6_roundtrip (v : V) (h : IPv6.WFv v) : RoundTrip kIPv6 v := ipv6_roundtrip_at 15 v h
+
+/-- no extension header: next header 17 announces the UDP payload directly -/
+example : IPv6.WFv (.obj "p.IPv6" [.num 6, .num 0xa5, .num 0xfedcb, .num 11, .num 17, .num 64,
+    .bytes [0x20, 1, 0xd, 0xb8, 0, 0, 0, 0, 0, 0, 0, 0, 0, 0, 0, 1], .bytes [0x20, 1, 0xd, 0xb8, 0, 0, 0, 0, 0, 0, 0, 0, 0, 0, 0, 2],
+    .nil, .nil, .nil, .obj "p.UDP" [.num 68, .num 67, .num 11, .num 0, .bytes [1, 2, 3]]]) := by decide
+
+/-- hop-by-hop (0) → fragment (44) → ICMPv6 (58) -/
+example : IPv6.WFv (.obj "p.IPv6" [.num 6, .num 0, .num 1, .num 23, .num 0, .num 64,
+    .bytes [0x20, 1, 0xd, 0xb8, 0, 0, 0, 0, 0, 0, 0, 0, 0, 0, 0, 1], .bytes [0x20, 1, 0xd, 0xb8, 0, 0, 0, 0, 0, 0, 0, 0, 0, 0, 0, 2],
+    .obj "p.HopByHopHeader" [.num 44, .num 0, .list [.obj "p.Option" [.num 1, .num 4, .bytes [0, 0, 0, 0]]]],
+    .nil,
+    .obj "p.FragmentHeader" [.num 58, .num 0, .num 0x1abc, .num 1, .num 0xcafe0001],
+    .obj "p.ICMP" [.num 128, .num 0, .num 0xf7ff, .bytes [1, 2, 3]]]) := by decide
+
+/-! ### Ethernet (container: optional 802.1Q tag, payload chosen by the ethertype) -/
+
 /-- the payload an Ethernet frame with ethertype `et` may carry so that the decoder finds it again:
-    IPv4 for 0x0800, ARP for 0x0806, an opaque buffer for any ethertype other than IPv4 / IPv6 / ARP -/
+    IPv4 for 0x0800, IPv6 for 0x86dd, ARP for 0x0806, an opaque buffer for any other ethertype -/
 def Ethernet.PayloadOK (et : Nat) (dat : V) : Prop :=
-  (et = Gen.protocol.IPv4_MSG ∧ IPv4.WFv dat) ∨ (et = Gen.protocol.ARP_MSG ∧ ARP.WFv dat) ∨
+  (et = Gen.protocol.IPv4_MSG ∧ IPv4.WFv dat) ∨ (et = Gen.protocol.IPv6_MSG ∧ IPv6.WFv dat) ∨
+    (et = Gen.protocol.ARP_MSG ∧ ARP.WFv dat) ∨
     (et ≠ Gen.protocol.IPv4_MSG ∧ et ≠ Gen.protocol.IPv6_MSG ∧ et ≠ Gen.protocol.ARP_MSG ∧ Buffer.WFv dat)
 instance (et : Nat) (dat : V) : Decidable (Ethernet.PayloadOK et dat) := by unfold Ethernet.PayloadOK; infer_instance
 
@@ -1434,6 +2189,11 @@ def etherPayloadDecode (et : UInt16) (rest : Slice) : R V :=
 /-- well-formed values have the kind their predicate names -/
 theorem ipv4_kind_of_wf (v : V) (h : IPv4.WFv v) : v.kind = "p.IPv4" := by
   unfold IPv4.WFv at h; split at h
+  · rfl
+  · exact h.elim
+/-- well-formed values have the kind their predicate names -/
+theorem ipv6_kind_of_wf (v : V) (h : IPv6.WFv v) : v.kind = "p.IPv6" := by
+  unfold IPv6.WFv at h; split at h
   · rfl
   · exact h.elim
 /-- well-formed values have the kind their predicate names -/
@@ -1482,7 +2242,7 @@ theorem ether_payload_facts (et : Nat) (het : et < 65536) (dat : V) (h : Etherne
       pb.length = pl.toNat ∧ pl.toNat = frameSize dat ∧
       ∀ spare, etherPayloadDecode (n16 et) ⟨pb ++ spare, pb.length⟩ = .ok dat := by
   have hn : (n16 et).toNat = et := n16_toNat _ het
-  rcases h with ⟨hp, hw⟩ | ⟨hp, hw⟩ | ⟨h4, h6, ha, hw⟩
+  rcases h with ⟨hp, hw⟩ | ⟨hp, hw⟩ | ⟨hp, hw⟩ | ⟨h4, h6, ha, hw⟩
   · have hk := ipv4_kind_of_wf dat hw
     obtain ⟨pb, pl, h1, h2, h3, h4⟩ := ipv4_roundtrip_at d dat hw
     simp only [kIPv4At] at h1 h2 h4
@@ -1493,6 +2253,18 @@ theorem ether_payload_facts (et : Nat) (het : et < 65536) (dat : V) (h : Etherne
     · intro spare
       unfold etherPayloadDecode
       rw [hn, if_pos hp]
+      exact h4 spare
+  · have hk := ipv6_kind_of_wf dat hw
+    obtain ⟨pb, pl, h1, h2, h3, hsz, h4⟩ := ipv6_roundtrip_size_at d dat hw
+    simp only [kIPv6At] at h1 h2 h4
+    have hne4 : et ≠ Gen.protocol.IPv4_MSG := by rw [hp]; decide
+    refine ⟨?_, pb, pl, ?_, ?_, h3, hsz, ?_⟩
+    · cases dat <;> simp_all [V.kind, V.isNil]
+    · simp only [protoAnyLenD, hk]; exact h2
+    · simp only [protoAnyMarshalD, hk]; exact h1
+    · intro spare
+      unfold etherPayloadDecode
+      rw [hn, if_neg hne4, if_pos hp]
       exact h4 spare
   · have hk := arp_kind_of_wf dat hw
     obtain ⟨pb, pl, h1, h2, h3, h4⟩ := (arp_roundtrip dat hw).roundTrip
@@ -1696,7 +2468,7 @@ theorem ethernet_tagged_roundtrip (d : Nat) (dst src : Bytes) (pcp dei vid et : 
     rw [← bind_ite, ← bind_ite, ← bind_ite, hdec]
     simp [PEthernet.zero, Slice.bytes, makeCopy_self, u16_n16, h4]
 
-/-- a well-formed Ethernet frame (untagged, or tagged with a non-zero VLAN id; IPv4 / ARP / opaque payload) round-trips,
+/-- a well-formed Ethernet frame (untagged, or tagged with a non-zero VLAN id; IPv4 / IPv6 / ARP / opaque payload) round-trips,
     at any nesting depth -/
 theorem ethernet_roundtrip_at (d : Nat) (v : V) (h : Ethernet.WFv v) : RoundTrip (kEthernetAt d) v := by
   unfold Ethernet.WFv at h
@@ -1716,6 +2488,14 @@ example : Ethernet.WFv (.obj "p.Ethernet" [.num 0, .bytes [1, 1, 1, 1, 1, 1], .b
     .obj "p.ARP" [.num 1, .num 0x800, .num 6, .num 4, .num 2, .bytes [1, 2, 3, 4, 5, 6],
       .bytes [10, 0, 0, 1], .bytes [7, 8, 9, 10, 11, 12], .bytes [10, 0, 0, 2]]]) := by decide
 
+/-- a tagged frame carrying IPv6 with a routing header (43) in front of UDP (17) -/
+example : Ethernet.WFv (.obj "p.Ethernet" [.num 0, .bytes [1, 1, 1, 1, 1, 1], .bytes [2, 2, 2, 2, 2, 2],
+    .obj "p.VLAN" [.num 0x8100, .num 3, .num 0, .num 100], .num 0x86dd,
+    .obj "p.IPv6" [.num 6, .num 0, .num 1, .num 19, .num 43, .num 64,
+      .bytes [0x20, 1, 0xd, 0xb8, 0, 0, 0, 0, 0, 0, 0, 0, 0, 0, 0, 1], .bytes [0x20, 1, 0xd, 0xb8, 0, 0, 0, 0, 0, 0, 0, 0, 0, 0, 0, 2],
+      .nil, .obj "p.RoutingHeader" [.num 17, .num 0, .num 0, .num 1, .obj "u.Buffer" [.bytes [1, 2, 3, 4]]], .nil,
+      .obj "p.UDP" [.num 68, .num 67, .num 11, .num 0, .bytes [1, 2, 3]]]]) := by decide
+
 /-- a priority-tagged frame: 802.1Q tag with priority 5 and VLAN id 0 (legal on the wire) -/
 def prioTagged : V := .obj "p.Ethernet" [.num 0, .bytes [1, 1, 1, 1, 1, 1], .bytes [2, 2, 2, 2, 2, 2],
   .obj "p.VLAN" [.num 0x8100, .num 5, .num 0, .num 0], .num 0x88b5, .obj "u.Buffer" [.bytes [7, 7]]]
@@ -1731,743 +2511,6 @@ theorem ethernet_priority_tag_lost :
   constructor
   · rfl
   · rfl
-
-/-! ### IPv6 (container: version / class / flow-label lanes, payload chosen by the next-header value) -/
-
-/-- the payload an IPv6 packet whose header chain ends with next-header value `nx` may carry so that the decoder
-    finds it again: ICMPv6 (decoded as `p.ICMP`) for 58, UDP for 17, an opaque buffer otherwise -/
-def IPv6.PayloadOK (nx : Nat) (dat : V) : Prop :=
-  (nx = Gen.protocol.Type_IPv6ICMP ∧ ICMP.WFv dat) ∨ (nx = Gen.protocol.Type_UDP ∧ UDP.WFv dat) ∨
-    (nx ≠ Gen.protocol.Type_IPv6ICMP ∧ nx ≠ Gen.protocol.Type_UDP ∧ Buffer.WFv dat)
-instance (nx : Nat) (dat : V) : Decidable (IPv6.PayloadOK nx dat) := by unfold IPv6.PayloadOK; infer_instance
-
-/-- the decoder's payload choice as a function of the last next-header value -/
-def ipv6PayloadDecode (nx : UInt8) (rest : Slice) : R V :=
-  if nx.toNat = Gen.protocol.Type_IPv6ICMP then PICMP.unmarshal PIPv4.newICMP rest
-  else if nx.toNat = Gen.protocol.Type_UDP then PUDP.unmarshal PIPv4.newUDP rest
-  else UBuffer.unmarshal UBuffer.zero rest
-
-/-- what an admissible IPv6 payload provides to the container: the dispatch reaches its kind, it round-trips, its size
-    is `paySize`, and the decoder's choice for the last next-header value `nx` is its decoder -/
-theorem ipv6_payload_facts (nx : Nat) (hnx : nx < 256) (dat : V) (h : IPv6.PayloadOK nx dat) (d : Nat) :
-    dat.isNil = false ∧ ∃ pb pl, protoAnyLenD (d + 1) dat = .ok (pl, dat) ∧ protoAnyMarshalD (d + 1) dat = .ok (pb, dat) ∧
-      pb.length = pl.toNat ∧ pl.toNat = paySize dat ∧ ∀ spare, ipv6PayloadDecode (n8 nx) ⟨pb ++ spare, pb.length⟩ = .ok dat := by
-  have hn : (n8 nx).toNat = nx := n8_toNat _ hnx
-  rcases h with ⟨hp, hw⟩ | ⟨hp, hw⟩ | ⟨hp, hq, hw⟩
-  · have hk := icmp_kind_of_wf dat hw
-    obtain ⟨pb, pl, h1, h2, h3, h4⟩ := icmp_roundtrip dat hw
-    refine ⟨?_, pb, pl, ?_, ?_, h3, icmp_size dat hw pl h2, ?_⟩
-    · cases dat <;> simp_all [V.kind, V.isNil]
-    · simp only [protoAnyLenD, hk]; exact h2
-    · simp only [protoAnyMarshalD, hk]; exact h1
-    · intro spare
-      unfold ipv6PayloadDecode
-      rw [hn, if_pos hp]
-      exact h4 spare
-  · have hk := udp_kind_of_wf dat hw
-    obtain ⟨pb, pl, h1, h2, h3, h4⟩ := udp_roundtrip dat hw
-    have hne : nx ≠ Gen.protocol.Type_IPv6ICMP := by rw [hp]; decide
-    refine ⟨?_, pb, pl, ?_, ?_, h3, udp_size dat hw pl h2, ?_⟩
-    · cases dat <;> simp_all [V.kind, V.isNil]
-    · simp only [protoAnyLenD, hk]; exact h2
-    · simp only [protoAnyMarshalD, hk]; exact h1
-    · intro spare
-      unfold ipv6PayloadDecode
-      rw [hn, if_neg hne, if_pos hp]
-      exact h4 spare
-  · have hk := buffer_kind_of_wf dat hw
-    obtain ⟨pb, pl, h1, h2, h3, h4⟩ := buffer_roundtrip dat hw
-    refine ⟨?_, pb, pl, ?_, ?_, h3, buffer_size dat hw pl h2, ?_⟩
-    · cases dat <;> simp_all [V.kind, V.isNil]
-    · simp only [protoAnyLenD, hk]; exact h2
-    · simp only [protoAnyMarshalD, hk]; exact h1
-    · intro spare
-      unfold ipv6PayloadDecode
-      rw [hn, if_neg hp, if_neg hq]
-      exact h4 spare
-
-/-- the IPv6 operations as a container at nesting depth `d + 2` sees them (`d = 15` is the top level) -/
-def kIPv6At (d : Nat) : KindOps :=
-  ⟨PIPv6.lenW (protoAnyLenD (d + 1)), PIPv6.marshalW (protoAnyLenD (d + 1)) (protoAnyMarshalD (d + 1)), PIPv6.unmarshal, PIPv6.zero⟩
-/-- `IPv6` operations at top level -/
-def kIPv6 : KindOps := ⟨PIPv6.lenM, PIPv6.marshalM, PIPv6.unmarshal, PIPv6.zero⟩
-
-/-- the three kinds of IPv6 extension header the library knows -/
-inductive ExtK
-  | hbh | rt | fr
-deriving DecidableEq
-
-/-- the `NextHeader` field (the first field of every extension header) -/
-def nhOf : V → Nat
-  | .obj _ (.num nh :: _) => nh
-  | _ => 0
-
-/-- encoded size of an extension header value (0 for an absent one) -/
-def extSize : V → Nat
-  | .obj "p.HopByHopHeader" [_, .num hel, _] => 8 * (hel + 1)
-  | .obj "p.RoutingHeader" [_, .num hel, _, _, _] => 8 * (hel + 1)
-  | .obj "p.FragmentHeader" _ => 8
-  | _ => 0
-
-/-- the walk along the next-header values starting from `nxt`: which extension headers are visited, in order, and the
-    value announced for the payload; at most `fuel` headers -/
-def extPath (hbh rt fr : V) : Nat → Nat → List ExtK × Nat
-  | 0, nxt => ([], nxt)
-  | f + 1, nxt =>
-    if nxt = Gen.protocol.Type_HBH then
-      (ExtK.hbh :: (extPath hbh rt fr f (nhOf hbh)).1, (extPath hbh rt fr f (nhOf hbh)).2)
-    else if nxt = Gen.protocol.Type_Routing then
-      (ExtK.rt :: (extPath hbh rt fr f (nhOf rt)).1, (extPath hbh rt fr f (nhOf rt)).2)
-    else if nxt = Gen.protocol.Type_Fragment then
-      (ExtK.fr :: (extPath hbh rt fr f (nhOf fr)).1, (extPath hbh rt fr f (nhOf fr)).2)
-    else ([], nxt)
-
-/-- what the round trip of one extension header provides to the IPv6 container -/
-def ExtFacts (bytes : V → R Bytes) (next : V → R UInt8) (len : V → R UInt16) (unm : V → Slice → R V) (zero : V)
-    (X : V) (bs : Bytes) : Prop :=
-  bytes X = .ok bs ∧ next X = .ok (n8 (nhOf X)) ∧ nhOf X < 256 ∧ (∃ l, len X = .ok l ∧ bs.length = l.toNat) ∧
-    bs.length = extSize X ∧ 8 ≤ bs.length ∧ X.isNil = false ∧
-    ∀ tail n, bs.length ≤ n → n ≤ (bs ++ tail).length → unm zero ⟨bs ++ tail, n⟩ = .ok X
-
-theorem hbh_ext_facts (X : V) (h : HopByHop.WFv X) :
-    ∃ bs, ExtFacts PHopByHop.bytes PHopByHop.nextHeader PHopByHop.len PHopByHop.unmarshal PHopByHop.zero X bs := by
-  unfold HopByHop.WFv at h
-  split at h
-  · rename_i nh hel os
-    have hwf : HopByHop.WFv (.obj "p.HopByHopHeader" [.num nh, .num hel, .list os]) := by
-      simp only [HopByHop.WFv]; exact h
-    obtain ⟨bs, l, h1, h2, h3, h4⟩ := hopbyhop_roundtrip _ hwf
-    simp only [kHopByHop, PHopByHop.marshalM, PHopByHop.lenM] at h1 h2 h4
-    obtain ⟨b, hb, h1⟩ := bind_ok_inv _ _ _ h1
-    obtain ⟨rfl, _⟩ := same_ok _ _ _ _ h1
-    obtain ⟨l', hl', h2⟩ := bind_ok_inv _ _ _ h2
-    obtain ⟨rfl, _⟩ := same_ok _ _ _ _ h2
-    have hsz : bs.length = 8 * (hel + 1) := by
-      simp only [PHopByHop.len, Gen.protocol.HopByHopHeader.Len] at hl'
-      cases hl'
-      rw [h3, ext_len hel h.2.1]
-    exact ⟨bs, hb, rfl, h.1, ⟨l, hl', h3⟩, hsz, by omega, rfl, h4⟩
-  · exact h.elim
-
-theorem routing_ext_facts (X : V) (h : Routing.WFv X) :
-    ∃ bs, ExtFacts PRouting.bytes PRouting.nextHeader PRouting.len PRouting.unmarshal PRouting.zero X bs := by
-  unfold Routing.WFv at h
-  split at h
-  · rename_i nh hel rt sl c
-    have hwf : Routing.WFv (.obj "p.RoutingHeader" [.num nh, .num hel, .num rt, .num sl, .obj "u.Buffer" [.bytes c]]) := by
-      simp only [Routing.WFv]; exact h
-    obtain ⟨bs, l, h1, h2, h3, h4⟩ := routing_roundtrip _ hwf
-    simp only [kRouting, PRouting.marshalM, PRouting.lenM] at h1 h2 h4
-    obtain ⟨b, hb, h1⟩ := bind_ok_inv _ _ _ h1
-    obtain ⟨rfl, _⟩ := same_ok _ _ _ _ h1
-    obtain ⟨l', hl', h2⟩ := bind_ok_inv _ _ _ h2
-    obtain ⟨rfl, _⟩ := same_ok _ _ _ _ h2
-    have hsz : bs.length = 8 * (hel + 1) := by
-      simp only [PRouting.len, Gen.protocol.RoutingHeader.Len] at hl'
-      cases hl'
-      rw [h3, ext_len hel h.2.1]
-    exact ⟨bs, hb, rfl, h.1, ⟨l, hl', h3⟩, hsz, by omega, rfl, h4⟩
-  · exact h.elim
-
-theorem fragment_ext_facts (X : V) (h : Fragment.WFv X) :
-    ∃ bs, ExtFacts PFragment.bytes PFragment.nextHeader PFragment.len PFragment.unmarshal PFragment.zero X bs := by
-  unfold Fragment.WFv at h
-  split at h
-  · rename_i nh rs off m ident
-    have hwf : Fragment.WFv (.obj "p.FragmentHeader" [.num nh, .num rs, .num off, .num m, .num ident]) := by
-      simp only [Fragment.WFv]; exact h
-    obtain ⟨bs, l, h1, h2, h3, h4⟩ := fragment_roundtrip _ hwf
-    simp only [kFragment, PFragment.marshalM, PFragment.lenM] at h1 h2 h4
-    obtain ⟨b, hb, h1⟩ := bind_ok_inv _ _ _ h1
-    obtain ⟨rfl, _⟩ := same_ok _ _ _ _ h1
-    obtain ⟨l', hl', h2⟩ := bind_ok_inv _ _ _ h2
-    obtain ⟨rfl, _⟩ := same_ok _ _ _ _ h2
-    have hsz : bs.length = 8 := by
-      simp only [PFragment.len, Gen.protocol.FragmentHeader.Len] at hl'
-      cases hl'
-      rw [h3]; rfl
-    exact ⟨bs, hb, rfl, h.1, ⟨l, hl', h3⟩, hsz, by omega, rfl, h4⟩
-  · exact h.elim
-
-/-- the header of each kind in an IPv6 value, and its well-formedness -/
-def hdrOf (hbh rt fr : V) : ExtK → V
-  | .hbh => hbh | .rt => rt | .fr => fr
-def hdrWF (hbh rt fr : V) : ExtK → Prop
-  | .hbh => HopByHop.WFv hbh | .rt => Routing.WFv rt | .fr => Fragment.WFv fr
-instance (hbh rt fr : V) : DecidablePred (hdrWF hbh rt fr) := fun K => by cases K <;> unfold hdrWF <;> infer_instance
-
-/-- the decoder's state after it has visited the headers in `p`, ending at offset `n` with `nxt` announced -/
-def visited (hbh rt fr : V) (p : List ExtK) (st : PIPv6.XSt) (n : Nat) (nxt : UInt8) : PIPv6.XSt :=
-  { n := n, nxt := nxt, hbh := if ExtK.hbh ∈ p then hbh else st.hbh, rt := if ExtK.rt ∈ p then rt else st.rt,
-    fr := if ExtK.fr ∈ p then fr else st.fr }
-
-theorem chain_stop (hbh rt fr : V) (nxt : Nat) (hn : nxt < 256) (h0 : nxt ≠ Gen.protocol.Type_HBH)
-    (h1 : nxt ≠ Gen.protocol.Type_Routing) (h2 : nxt ≠ Gen.protocol.Type_Fragment) :
-    (∀ ef, 0 < ef → PIPv6.extChain hbh rt fr ef (n8 nxt) = .ok []) ∧
-    (∀ (data : Slice) (df : Nat) (st : PIPv6.XSt), st.nxt = n8 nxt → 0 < df → PIPv6.xloop data df st = .ok st) := by
-  have hnn : (n8 nxt).toNat = nxt := n8_toNat _ hn
-  constructor
-  · intro ef hef
-    obtain ⟨e, rfl⟩ : ∃ e, ef = e + 1 := ⟨ef - 1, by omega⟩
-    simp only [PIPv6.extChain, hnn, h0, h1, h2, if_false]
-  · intro data df st hst hdf
-    obtain ⟨g, rfl⟩ : ∃ g, df = g + 1 := ⟨df - 1, by omega⟩
-    simp only [PIPv6.xloop, PIPv6.xstep, hst, hnn, h0, h1, h2, if_false]
-
-theorem enc_step_hbh (hbh rt fr : V) (bs : Bytes) (ws : List Bytes) (e : Nat)
-    (hf : ExtFacts PHopByHop.bytes PHopByHop.nextHeader PHopByHop.len PHopByHop.unmarshal PHopByHop.zero hbh bs)
-    (hrest : PIPv6.extChain hbh rt fr e (n8 (nhOf hbh)) = .ok ws) :
-    PIPv6.extChain hbh rt fr (e + 1) (n8 Gen.protocol.Type_HBH) = .ok (bs :: ws) := by
-  obtain ⟨f1, f2, _⟩ := hf
-  have hnn : (n8 Gen.protocol.Type_HBH).toNat = Gen.protocol.Type_HBH := rfl
-  simp only [PIPv6.extChain, hnn, if_true, f1, f2, hrest, Res.bind_ok, Res.pure_eq]
-
-theorem dec_step_hbh (hbh : V) (bs pre rest : Bytes) (len g : Nat) (st t : PIPv6.XSt)
-    (hf : ExtFacts PHopByHop.bytes PHopByHop.nextHeader PHopByHop.len PHopByHop.unmarshal PHopByHop.zero hbh bs)
-    (hn : st.n = pre.length) (hx : st.nxt = n8 Gen.protocol.Type_HBH) (hl1 : pre.length + bs.length ≤ len)
-    (hl2 : len ≤ (pre ++ bs ++ rest).length)
-    (hrest : PIPv6.xloop ⟨pre ++ bs ++ rest, len⟩ g { st with n := st.n + bs.length, nxt := n8 (nhOf hbh), hbh := hbh } = .ok t) :
-    PIPv6.xloop ⟨pre ++ bs ++ rest, len⟩ (g + 1) st = .ok t := by
-  obtain ⟨f1, f2, f3, ⟨l, f4, f5⟩, f6, f7, f8, f9⟩ := hf
-  have hnn : (n8 Gen.protocol.Type_HBH).toNat = Gen.protocol.Type_HBH := rfl
-  have hstep : PIPv6.xstep ⟨pre ++ bs ++ rest, len⟩ st
-      = .ok (some { st with n := st.n + bs.length, nxt := n8 (nhOf hbh), hbh := hbh }) := by
-    simp only [PIPv6.xstep, hx, hnn, if_true]
-    rw [hn, Slice.fromR_ok _ _ (by show pre.length ≤ len; omega)]
-    simp only [Res.bind_ok]
-    have hd : List.drop pre.length (pre ++ bs ++ rest) = bs ++ rest := by simp
-    simp at hl2
-    rw [hd, f9 rest (len - pre.length) (by omega) (by simp; omega)]
-    simp only [Res.bind_ok, f2, f4, f5, Res.pure_eq]
-  unfold PIPv6.xloop
-  rw [hstep]
-  simp only
-  rw [if_neg (by simp only [not_and]; intro h; omega)]
-  exact hrest
-
-theorem enc_step_rt (hbh rt fr : V) (bs : Bytes) (ws : List Bytes) (e : Nat)
-    (hf : ExtFacts PRouting.bytes PRouting.nextHeader PRouting.len PRouting.unmarshal PRouting.zero rt bs)
-    (hrest : PIPv6.extChain hbh rt fr e (n8 (nhOf rt)) = .ok ws) :
-    PIPv6.extChain hbh rt fr (e + 1) (n8 Gen.protocol.Type_Routing) = .ok (bs :: ws) := by
-  obtain ⟨f1, f2, _⟩ := hf
-  have hnn : (n8 Gen.protocol.Type_Routing).toNat = Gen.protocol.Type_Routing := rfl
-  have hne : ¬ (Gen.protocol.Type_Routing = Gen.protocol.Type_HBH) := by decide
-  simp only [PIPv6.extChain, hnn, hne, if_false, if_true, f1, f2, hrest, Res.bind_ok, Res.pure_eq]
-
-theorem dec_step_rt (rt : V) (bs pre rest : Bytes) (len g : Nat) (st t : PIPv6.XSt)
-    (hf : ExtFacts PRouting.bytes PRouting.nextHeader PRouting.len PRouting.unmarshal PRouting.zero rt bs)
-    (hn : st.n = pre.length) (hx : st.nxt = n8 Gen.protocol.Type_Routing) (hl1 : pre.length + bs.length ≤ len)
-    (hl2 : len ≤ (pre ++ bs ++ rest).length)
-    (hrest : PIPv6.xloop ⟨pre ++ bs ++ rest, len⟩ g { st with n := st.n + bs.length, nxt := n8 (nhOf rt), rt := rt } = .ok t) :
-    PIPv6.xloop ⟨pre ++ bs ++ rest, len⟩ (g + 1) st = .ok t := by
-  obtain ⟨f1, f2, f3, ⟨l, f4, f5⟩, f6, f7, f8, f9⟩ := hf
-  have hnn : (n8 Gen.protocol.Type_Routing).toNat = Gen.protocol.Type_Routing := rfl
-  have hstep : PIPv6.xstep ⟨pre ++ bs ++ rest, len⟩ st
-      = .ok (some { st with n := st.n + bs.length, nxt := n8 (nhOf rt), rt := rt }) := by
-    have hne : ¬ (Gen.protocol.Type_Routing = Gen.protocol.Type_HBH) := by decide
-    simp only [PIPv6.xstep, hx, hnn, hne, if_false, if_true]
-    rw [hn, Slice.fromR_ok _ _ (by show pre.length ≤ len; omega)]
-    simp only [Res.bind_ok]
-    have hd : List.drop pre.length (pre ++ bs ++ rest) = bs ++ rest := by simp
-    simp at hl2
-    rw [hd, f9 rest (len - pre.length) (by omega) (by simp; omega)]
-    simp only [Res.bind_ok, f2, f4, f5, Res.pure_eq]
-  unfold PIPv6.xloop
-  rw [hstep]
-  simp only
-  rw [if_neg (by simp only [not_and]; intro h; omega)]
-  exact hrest
-
-theorem enc_step_fr (hbh rt fr : V) (bs : Bytes) (ws : List Bytes) (e : Nat)
-    (hf : ExtFacts PFragment.bytes PFragment.nextHeader PFragment.len PFragment.unmarshal PFragment.zero fr bs)
-    (hrest : PIPv6.extChain hbh rt fr e (n8 (nhOf fr)) = .ok ws) :
-    PIPv6.extChain hbh rt fr (e + 1) (n8 Gen.protocol.Type_Fragment) = .ok (bs :: ws) := by
-  obtain ⟨f1, f2, _⟩ := hf
-  have hnn : (n8 Gen.protocol.Type_Fragment).toNat = Gen.protocol.Type_Fragment := rfl
-  have hne : ¬ (Gen.protocol.Type_Fragment = Gen.protocol.Type_HBH) := by decide
-  have hne2 : ¬ (Gen.protocol.Type_Fragment = Gen.protocol.Type_Routing) := by decide
-  simp only [PIPv6.extChain, hnn, hne, hne2, if_false, if_true, f1, f2, hrest, Res.bind_ok, Res.pure_eq]
-
-theorem dec_step_fr (fr : V) (bs pre rest : Bytes) (len g : Nat) (st t : PIPv6.XSt)
-    (hf : ExtFacts PFragment.bytes PFragment.nextHeader PFragment.len PFragment.unmarshal PFragment.zero fr bs)
-    (hn : st.n = pre.length) (hx : st.nxt = n8 Gen.protocol.Type_Fragment) (hl1 : pre.length + bs.length ≤ len)
-    (hl2 : len ≤ (pre ++ bs ++ rest).length)
-    (hrest : PIPv6.xloop ⟨pre ++ bs ++ rest, len⟩ g { st with n := st.n + bs.length, nxt := n8 (nhOf fr), fr := fr } = .ok t) :
-    PIPv6.xloop ⟨pre ++ bs ++ rest, len⟩ (g + 1) st = .ok t := by
-  obtain ⟨f1, f2, f3, ⟨l, f4, f5⟩, f6, f7, f8, f9⟩ := hf
-  have hnn : (n8 Gen.protocol.Type_Fragment).toNat = Gen.protocol.Type_Fragment := rfl
-  have hstep : PIPv6.xstep ⟨pre ++ bs ++ rest, len⟩ st
-      = .ok (some { st with n := st.n + bs.length, nxt := n8 (nhOf fr), fr := fr }) := by
-    have hne : ¬ (Gen.protocol.Type_Fragment = Gen.protocol.Type_HBH) := by decide
-    have hne2 : ¬ (Gen.protocol.Type_Fragment = Gen.protocol.Type_Routing) := by decide
-    simp only [PIPv6.xstep, hx, hnn, hne, hne2, if_false, if_true]
-    rw [hn, Slice.fromR_ok _ _ (by show pre.length ≤ len; omega)]
-    simp only [Res.bind_ok]
-    have hd : List.drop pre.length (pre ++ bs ++ rest) = bs ++ rest := by simp
-    simp at hl2
-    rw [hd, f9 rest (len - pre.length) (by omega) (by simp; omega)]
-    simp only [Res.bind_ok, f2, f4, f5, Res.pure_eq]
-  unfold PIPv6.xloop
-  rw [hstep]
-  simp only
-  rw [if_neg (by simp only [not_and]; intro h; omega)]
-  exact hrest
-
-/-- THE CHAIN LEMMA.  Follow the next-header values from `nxt` for at most `f` headers; if every visited header is
-    well-formed and the walk ends at a value that announces no further extension header, then the encoder's walk
-    (`extChain`) emits exactly the encodings `ws` of the visited headers, and on any buffer that continues with `ws` the
-    decoder's walk (`xloop`) visits the same headers, stores each of them in its slot, and stops behind them. -/
-theorem chain_lemma (hbh rt fr : V) : ∀ (f nxt : Nat), nxt < 256 →
-    (∀ K ∈ (extPath hbh rt fr f nxt).1, hdrWF hbh rt fr K) →
-    (extPath hbh rt fr f nxt).2 ≠ Gen.protocol.Type_HBH → (extPath hbh rt fr f nxt).2 ≠ Gen.protocol.Type_Routing →
-    (extPath hbh rt fr f nxt).2 ≠ Gen.protocol.Type_Fragment →
-    ∃ ws : List Bytes,
-      ws.flatten.length = ((extPath hbh rt fr f nxt).1.map (fun K => extSize (hdrOf hbh rt fr K))).sum ∧
-      (extPath hbh rt fr f nxt).2 < 256 ∧
-      (∀ K ∈ (extPath hbh rt fr f nxt).1, (hdrOf hbh rt fr K).isNil = false) ∧
-      (∀ ef, (extPath hbh rt fr f nxt).1.length < ef → PIPv6.extChain hbh rt fr ef (n8 nxt) = .ok ws) ∧
-      (∀ (pre tail : Bytes) (len df : Nat) (st : PIPv6.XSt), st.n = pre.length → st.nxt = n8 nxt →
-        pre.length + ws.flatten.length ≤ len → len ≤ (pre ++ ws.flatten ++ tail).length →
-        (extPath hbh rt fr f nxt).1.length < df →
-        PIPv6.xloop ⟨pre ++ ws.flatten ++ tail, len⟩ df st =
-          .ok (visited hbh rt fr (extPath hbh rt fr f nxt).1 st (pre.length + ws.flatten.length)
-            (n8 (extPath hbh rt fr f nxt).2))) := by
-  intro f
-  induction f with
-  | zero =>
-    intro nxt hn _ h0 h1 h2
-    simp only [extPath] at h0 h1 h2 ⊢
-    obtain ⟨c1, c2⟩ := chain_stop hbh rt fr nxt hn h0 h1 h2
-    refine ⟨[], rfl, hn, by simp, fun ef hef => c1 ef (by simpa using hef), ?_⟩
-    intro pre tail len df st hsn hsx _ _ hdf
-    rw [c2 _ df st hsx (by simpa using hdf)]
-    cases st
-    simp [visited] at hsn hsx ⊢
-    exact ⟨hsn, hsx⟩
-  | succ f ih =>
-    intro nxt hn hwf h0 h1 h2
-    by_cases c0 : nxt = Gen.protocol.Type_HBH
-    · subst c0
-      simp only [extPath, if_true] at hwf h0 h1 h2 ⊢
-      have hX : HopByHop.WFv hbh := hwf ExtK.hbh (by simp)
-      obtain ⟨bs, hf⟩ := hbh_ext_facts hbh hX
-      obtain ⟨ws, i1, i2, i3, i4, i5⟩ := ih (nhOf hbh) hf.2.2.1 (fun K hK => hwf K (by simp [hK])) h0 h1 h2
-      refine ⟨bs :: ws, ?_, i2, ?_, ?_, ?_⟩
-      · simp only [List.flatten_cons, List.length_append, List.map_cons, List.sum_cons, i1, hdrOf, hf.2.2.2.2.1]
-      · intro K hK
-        simp at hK
-        rcases hK with rfl | hK
-        · exact hf.2.2.2.2.2.2.1
-        · exact i3 K hK
-      · intro ef hef
-        simp only [List.length_cons] at hef
-        obtain ⟨e, rfl⟩ : ∃ e, ef = e + 1 := ⟨ef - 1, by omega⟩
-        exact enc_step_hbh hbh rt fr bs ws e hf (i4 e (by omega))
-      · intro pre tail len df st hsn hsx hl1 hl2 hdf
-        obtain ⟨g, rfl⟩ : ∃ g, df = g + 1 := ⟨df - 1, by simp only [List.length_cons] at hdf; omega⟩
-        simp only [List.flatten_cons, List.length_append, List.length_cons] at hl1 hl2 hdf ⊢
-        have hbuf : pre ++ (bs ++ ws.flatten) ++ tail = pre ++ bs ++ (ws.flatten ++ tail) := by
-          simp only [List.append_assoc]
-        rw [hbuf]
-        apply dec_step_hbh hbh bs pre (ws.flatten ++ tail) len g st _ hf hsn hsx (by omega)
-          (by simp only [List.length_append]; omega)
-        have := i5 (pre ++ bs) tail len g { st with n := st.n + bs.length, nxt := n8 (nhOf hbh), hbh := hbh }
-          (by simp only [List.length_append, hsn]) rfl (by simp only [List.length_append]; omega)
-          (by simp only [List.length_append]; omega) (by omega)
-        have hbuf2 : pre ++ bs ++ ws.flatten ++ tail = pre ++ bs ++ (ws.flatten ++ tail) := by
-          simp only [List.append_assoc]
-        rw [hbuf2] at this
-        rw [this]
-        simp [visited, Nat.add_assoc]
-    · by_cases c1 : nxt = Gen.protocol.Type_Routing
-      · subst c1
-        have hne : ¬ (Gen.protocol.Type_Routing = Gen.protocol.Type_HBH) := by decide
-        simp only [extPath, hne, if_false, if_true] at hwf h0 h1 h2 ⊢
-        have hX : Routing.WFv rt := hwf ExtK.rt (by simp)
-        obtain ⟨bs, hf⟩ := routing_ext_facts rt hX
-        obtain ⟨ws, i1, i2, i3, i4, i5⟩ := ih (nhOf rt) hf.2.2.1 (fun K hK => hwf K (by simp [hK])) h0 h1 h2
-        refine ⟨bs :: ws, ?_, i2, ?_, ?_, ?_⟩
-        · simp only [List.flatten_cons, List.length_append, List.map_cons, List.sum_cons, i1, hdrOf, hf.2.2.2.2.1]
-        · intro K hK
-          simp at hK
-          rcases hK with rfl | hK
-          · exact hf.2.2.2.2.2.2.1
-          · exact i3 K hK
-        · intro ef hef
-          simp only [List.length_cons] at hef
-          obtain ⟨e, rfl⟩ : ∃ e, ef = e + 1 := ⟨ef - 1, by omega⟩
-          exact enc_step_rt hbh rt fr bs ws e hf (i4 e (by omega))
-        · intro pre tail len df st hsn hsx hl1 hl2 hdf
-          obtain ⟨g, rfl⟩ : ∃ g, df = g + 1 := ⟨df - 1, by simp only [List.length_cons] at hdf; omega⟩
-          simp only [List.flatten_cons, List.length_append, List.length_cons] at hl1 hl2 hdf ⊢
-          have hbuf : pre ++ (bs ++ ws.flatten) ++ tail = pre ++ bs ++ (ws.flatten ++ tail) := by
-            simp only [List.append_assoc]
-          rw [hbuf]
-          apply dec_step_rt rt bs pre (ws.flatten ++ tail) len g st _ hf hsn hsx (by omega)
-            (by simp only [List.length_append]; omega)
-          have := i5 (pre ++ bs) tail len g { st with n := st.n + bs.length, nxt := n8 (nhOf rt), rt := rt }
-            (by simp only [List.length_append, hsn]) rfl (by simp only [List.length_append]; omega)
-            (by simp only [List.length_append]; omega) (by omega)
-          have hbuf2 : pre ++ bs ++ ws.flatten ++ tail = pre ++ bs ++ (ws.flatten ++ tail) := by
-            simp only [List.append_assoc]
-          rw [hbuf2] at this
-          rw [this]
-          simp [visited, Nat.add_assoc]
-      · by_cases c2 : nxt = Gen.protocol.Type_Fragment
-        · subst c2
-          have hne : ¬ (Gen.protocol.Type_Fragment = Gen.protocol.Type_HBH) := by decide
-          have hne2 : ¬ (Gen.protocol.Type_Fragment = Gen.protocol.Type_Routing) := by decide
-          simp only [extPath, hne, hne2, if_false, if_true] at hwf h0 h1 h2 ⊢
-          have hX : Fragment.WFv fr := hwf ExtK.fr (by simp)
-          obtain ⟨bs, hf⟩ := fragment_ext_facts fr hX
-          obtain ⟨ws, i1, i2, i3, i4, i5⟩ := ih (nhOf fr) hf.2.2.1 (fun K hK => hwf K (by simp [hK])) h0 h1 h2
-          refine ⟨bs :: ws, ?_, i2, ?_, ?_, ?_⟩
-          · simp only [List.flatten_cons, List.length_append, List.map_cons, List.sum_cons, i1, hdrOf, hf.2.2.2.2.1]
-          · intro K hK
-            simp at hK
-            rcases hK with rfl | hK
-            · exact hf.2.2.2.2.2.2.1
-            · exact i3 K hK
-          · intro ef hef
-            simp only [List.length_cons] at hef
-            obtain ⟨e, rfl⟩ : ∃ e, ef = e + 1 := ⟨ef - 1, by omega⟩
-            exact enc_step_fr hbh rt fr bs ws e hf (i4 e (by omega))
-          · intro pre tail len df st hsn hsx hl1 hl2 hdf
-            obtain ⟨g, rfl⟩ : ∃ g, df = g + 1 := ⟨df - 1, by simp only [List.length_cons] at hdf; omega⟩
-            simp only [List.flatten_cons, List.length_append, List.length_cons] at hl1 hl2 hdf ⊢
-            have hbuf : pre ++ (bs ++ ws.flatten) ++ tail = pre ++ bs ++ (ws.flatten ++ tail) := by
-              simp only [List.append_assoc]
-            rw [hbuf]
-            apply dec_step_fr fr bs pre (ws.flatten ++ tail) len g st _ hf hsn hsx (by omega)
-              (by simp only [List.length_append]; omega)
-            have := i5 (pre ++ bs) tail len g { st with n := st.n + bs.length, nxt := n8 (nhOf fr), fr := fr }
-              (by simp only [List.length_append, hsn]) rfl (by simp only [List.length_append]; omega)
-              (by simp only [List.length_append]; omega) (by omega)
-            have hbuf2 : pre ++ bs ++ ws.flatten ++ tail = pre ++ bs ++ (ws.flatten ++ tail) := by
-              simp only [List.append_assoc]
-            rw [hbuf2] at this
-            rw [this]
-            simp [visited, Nat.add_assoc]
-        · simp only [extPath, c0, c1, c2, if_false] at h0 h1 h2 ⊢
-          obtain ⟨e1, e2⟩ := chain_stop hbh rt fr nxt hn c0 c1 c2
-          refine ⟨[], rfl, hn, by simp, fun ef hef => e1 ef (by simpa using hef), ?_⟩
-          intro pre tail len df st hsn hsx _ _ hdf
-          rw [e2 _ df st hsx (by simpa using hdf)]
-          cases st
-          simp [visited] at hsn hsx ⊢
-          exact ⟨hsn, hsx⟩
-
-theorem extPath_length (hbh rt fr : V) : ∀ f nxt, (extPath hbh rt fr f nxt).1.length ≤ f := by
-  intro f
-  induction f with
-  | zero => intro nxt; simp [extPath]
-  | succ f ih =>
-    intro nxt
-    simp only [extPath]
-    split
-    · simp only [List.length_cons]; have := ih (nhOf hbh); omega
-    · split
-      · simp only [List.length_cons]; have := ih (nhOf rt); omega
-      · split
-        · simp only [List.length_cons]; have := ih (nhOf fr); omega
-        · simp
-
-/-- summing over a duplicate-free list of header kinds = summing over the kinds that occur -/
-theorem nodup_sum (g : ExtK → Nat) : ∀ (p : List ExtK), p.Nodup →
-    (p.map g).sum = (if ExtK.hbh ∈ p then g .hbh else 0) + (if ExtK.rt ∈ p then g .rt else 0) +
-      (if ExtK.fr ∈ p then g .fr else 0) := by
-  intro p
-  induction p with
-  | nil => intro _; rfl
-  | cons K p ih =>
-    intro hnd
-    rw [List.nodup_cons] at hnd
-    have := ih hnd.2
-    simp only [List.map_cons, List.sum_cons, this]
-    cases K <;> simp_all <;> omega
-
-/-- copying a list of encodings one after the other -/
-theorem copy_pieces (ws : List Bytes) :
-    piecesBytes (ws.map pCopy) = ws.flatten ∧ piecesLen (ws.map pCopy) = ws.flatten.length ∧
-      ∀ p ∈ ws.map pCopy, p.Tight := by
-  induction ws with
-  | nil => exact ⟨rfl, rfl, by simp⟩
-  | cons w ws ih =>
-    obtain ⟨i1, i2, i3⟩ := ih
-    refine ⟨?_, ?_, ?_⟩
-    · simp only [List.map_cons, List.flatten_cons, ← i1]; simp [piecesBytes, Piece.bytes, pCopy]
-    · simp only [List.map_cons, List.flatten_cons, List.length_append, ← i2]; simp [piecesLen, Piece.adv, pCopy]
-    · intro p hp
-      simp only [List.map_cons, List.mem_cons] at hp
-      rcases hp with rfl | hp
-      · simp [Piece.Tight, pCopy]
-      · exact i3 p hp
-
-theorem isNil_eq (X : V) (h : X.isNil = true) : X = .nil := by
-  cases X <;> simp_all [V.isNil]
-
-/-- well-formed IPv6 packet: version 4 bits, traffic class 8 bits, flow label 20 bits, 16-bit length, 8-bit next header /
-    hop limit, 16-byte addresses; the walk along the next-header values (starting at `NextHeader`, through the
-    `NextHeader` fields of the hop-by-hop / routing / fragment headers present) visits no header twice, every visited
-    header is well-formed, every header NOT visited is absent (nil), the walk ends at a value announcing the payload
-    that is present, and the total size fits 16 bits -/
-def IPv6.WFv : V → Prop
-  | .obj "p.IPv6" [.num ver, .num tc, .num fl, .num ln, .num nh, .num hl, .bytes src, .bytes dst, hbh, rt, fr, dat] =>
-    ver < 16 ∧ tc < 256 ∧ fl < 1048576 ∧ ln < 65536 ∧ nh < 256 ∧ hl < 256 ∧ src.length = 16 ∧ dst.length = 16 ∧
-      (extPath hbh rt fr 3 nh).1.Nodup ∧
-      (extPath hbh rt fr 3 nh).2 ≠ Gen.protocol.Type_HBH ∧ (extPath hbh rt fr 3 nh).2 ≠ Gen.protocol.Type_Routing ∧
-      (extPath hbh rt fr 3 nh).2 ≠ Gen.protocol.Type_Fragment ∧
-      (∀ K ∈ (extPath hbh rt fr 3 nh).1, hdrWF hbh rt fr K) ∧
-      (ExtK.hbh ∉ (extPath hbh rt fr 3 nh).1 → hbh.isNil = true) ∧
-      (ExtK.rt ∉ (extPath hbh rt fr 3 nh).1 → rt.isNil = true) ∧
-      (ExtK.fr ∉ (extPath hbh rt fr 3 nh).1 → fr.isNil = true) ∧
-      IPv6.PayloadOK (extPath hbh rt fr 3 nh).2 dat ∧
-      40 + extSize hbh + extSize rt + extSize fr + paySize dat < 65536
-  | _ => False
-instance : DecidablePred IPv6.WFv := fun v => by unfold IPv6.WFv; split <;> infer_instance
-
-/-- `Len()` of an optional extension header (0 when absent) is `extSize` -/
-theorem optlen_of_facts (len : V → R UInt16) (X : V)
-    (h : X.isNil = true ∨ ∃ (bs : Bytes) (l : UInt16), len X = .ok l ∧ bs.length = l.toNat ∧ bs.length = extSize X ∧ X.isNil = false) :
-    ∃ l, PIPv6.optLen len X = .ok l ∧ l.toNat = extSize X := by
-  rcases h with h | ⟨bs, l, h1, h2, h3, h4⟩
-  · rw [isNil_eq X h]
-    exact ⟨0, rfl, rfl⟩
-  · exact ⟨l, by simp [PIPv6.optLen, h4, h1], by omega⟩
-
-theorem ipv6_roundtrip_at (d : Nat) (v : V) (h : IPv6.WFv v) : RoundTrip (kIPv6At d) v := by
-  unfold IPv6.WFv at h
-  split at h
-  · rename_i ver tc fl ln nh hl src dst hbh rt fr dat
-    obtain ⟨h1, h2, h3, h4, h5, h6, h7, h8, hnd, hl0, hl1, hl2, hwfK, hnH, hnR, hnF, h12, h13⟩ := h
-    obtain ⟨ws, w1, w2, w3, w4, w5⟩ := chain_lemma hbh rt fr 3 nh h5 hwfK hl0 hl1 hl2
-    generalize hP : (extPath hbh rt fr 3 nh).1 = P at *
-    generalize hlast : (extPath hbh rt fr 3 nh).2 = last at *
-    have hPlen : P.length ≤ 3 := by rw [← hP]; exact extPath_length hbh rt fr 3 nh
-    obtain ⟨hnil, pb, pl, hpl, hpm, hpbl, hps, hpdec⟩ := ipv6_payload_facts last w2 dat h12 d
-    obtain ⟨s0, s1, s2, s3, s4, s5, s6, s7, s8, s9, s10, s11, s12, s13, s14, s15, rfl⟩ := bytes_len16 src h7
-    obtain ⟨d0, d1, d2, d3, d4, d5, d6, d7, d8, d9, d10, d11, d12, d13, d14, d15, rfl⟩ := bytes_len16 dst h8
-    -- sizes of the three optional headers
-    have eH : hbh.isNil = true ∨ ∃ (bs : Bytes) (l : UInt16), PHopByHop.len hbh = .ok l ∧ bs.length = l.toNat ∧
-        bs.length = extSize hbh ∧ hbh.isNil = false := by
-      by_cases hm : ExtK.hbh ∈ P
-      · obtain ⟨bs, _, _, _, ⟨l, q1, q2⟩, q3, _, q4, _⟩ := hbh_ext_facts hbh (hwfK _ hm)
-        exact Or.inr ⟨bs, l, q1, q2, q3, q4⟩
-      · exact Or.inl (hnH hm)
-    have eR : rt.isNil = true ∨ ∃ (bs : Bytes) (l : UInt16), PRouting.len rt = .ok l ∧ bs.length = l.toNat ∧
-        bs.length = extSize rt ∧ rt.isNil = false := by
-      by_cases hm : ExtK.rt ∈ P
-      · obtain ⟨bs, _, _, _, ⟨l, q1, q2⟩, q3, _, q4, _⟩ := routing_ext_facts rt (hwfK _ hm)
-        exact Or.inr ⟨bs, l, q1, q2, q3, q4⟩
-      · exact Or.inl (hnR hm)
-    have eF : fr.isNil = true ∨ ∃ (bs : Bytes) (l : UInt16), PFragment.len fr = .ok l ∧ bs.length = l.toNat ∧
-        bs.length = extSize fr ∧ fr.isNil = false := by
-      by_cases hm : ExtK.fr ∈ P
-      · obtain ⟨bs, _, _, _, ⟨l, q1, q2⟩, q3, _, q4, _⟩ := fragment_ext_facts fr (hwfK _ hm)
-        exact Or.inr ⟨bs, l, q1, q2, q3, q4⟩
-      · exact Or.inl (hnF hm)
-    obtain ⟨lH, lH1, lH2⟩ := optlen_of_facts PHopByHop.len hbh eH
-    obtain ⟨lR, lR1, lR2⟩ := optlen_of_facts PRouting.len rt eR
-    obtain ⟨lF, lF1, lF2⟩ := optlen_of_facts PFragment.len fr eF
-    have hW : ws.flatten.length = extSize hbh + extSize rt + extSize fr := by
-      rw [w1, nodup_sum _ P hnd]
-      simp only [hdrOf]
-      have z : extSize V.nil = 0 := rfl
-      have t1 : (if ExtK.hbh ∈ P then extSize hbh else 0) = extSize hbh := by
-        by_cases hm : ExtK.hbh ∈ P
-        · rw [if_pos hm]
-        · rw [if_neg hm, isNil_eq _ (hnH hm), z]
-      have t2 : (if ExtK.rt ∈ P then extSize rt else 0) = extSize rt := by
-        by_cases hm : ExtK.rt ∈ P
-        · rw [if_pos hm]
-        · rw [if_neg hm, isNil_eq _ (hnR hm), z]
-      have t3 : (if ExtK.fr ∈ P then extSize fr else 0) = extSize fr := by
-        by_cases hm : ExtK.fr ∈ P
-        · rw [if_pos hm]
-        · rw [if_neg hm, isNil_eq _ (hnF hm), z]
-      rw [t1, t2, t3]
-    have hnh : (n8 nh).toNat = nh := n8_toNat _ h5
-    have hL : ((40 : UInt16) + lH + lR + lF + pl).toNat = 40 + ws.flatten.length + pb.length := by
-      simp only [UInt16.toNat_add, lH2, lR2, lF2, hpbl, hW]
-      have : (40 : UInt16).toNat = 40 := rfl
-      rw [this, hps]; omega
-    have hlenW : PIPv6.lenW (protoAnyLenD (d + 1)) (.obj "p.IPv6" [.num ver, .num tc, .num fl, .num ln, .num nh, .num hl,
-        .bytes [s0, s1, s2, s3, s4, s5, s6, s7, s8, s9, s10, s11, s12, s13, s14, s15],
-        .bytes [d0, d1, d2, d3, d4, d5, d6, d7, d8, d9, d10, d11, d12, d13, d14, d15], hbh, rt, fr, dat])
-        = .ok ((40 : UInt16) + lH + lR + lF + pl, .obj "p.IPv6" [.num ver, .num tc, .num fl, .num ln, .num nh, .num hl,
-        .bytes [s0, s1, s2, s3, s4, s5, s6, s7, s8, s9, s10, s11, s12, s13, s14, s15],
-        .bytes [d0, d1, d2, d3, d4, d5, d6, d7, d8, d9, d10, d11, d12, d13, d14, d15], hbh, rt, fr, dat]) := by
-      simp [PIPv6.lenW, lH1, lR1, lF1, hpl]
-    obtain ⟨l1, l2, l3⟩ := lane_ipv6_version_class_flow (n8 ver) (n8 tc) (n32 fl) (by rw [n8_toNat _ (by omega)]; exact h1)
-      (by rw [n32_toNat _ (by omega)]; exact h3)
-    have l3' : PIPv6.unpackFlow (mk32 (PIPv6.packB0 (n8 ver) (n8 tc)) (PIPv6.packB1 (n8 tc) (n32 fl))
-        (hi16 (PIPv6.packLo (n32 fl))) (lo16 (PIPv6.packLo (n32 fl)))) = n32 fl := l3 _ (rd32_cons _ _ _ _ [])
-    refine ⟨[PIPv6.packB0 (n8 ver) (n8 tc), PIPv6.packB1 (n8 tc) (n32 fl)] ++ be16 (PIPv6.packLo (n32 fl)) ++ be16 (n16 ln) ++
-      [n8 nh, n8 hl] ++ [s0, s1, s2, s3, s4, s5, s6, s7, s8, s9, s10, s11, s12, s13, s14, s15] ++
-      [d0, d1, d2, d3, d4, d5, d6, d7, d8, d9, d10, d11, d12, d13, d14, d15] ++ ws.flatten ++ pb, (40 : UInt16) + lH + lR + lF + pl, ?_⟩
-    refine ⟨?_, ?_, ?_, ?_⟩
-    · simp only [kIPv6At, PIPv6.marshalW, hlenW, Res.bind_ok, hL, hnil, hpm]
-      have hch : PIPv6.extChain hbh rt fr ((40 + ws.flatten.length + pb.length) / 8 + 2) (n8 nh) = .ok ws :=
-        w4 _ (by omega)
-      have hpre : ∀ p ∈ [Piece.put [PIPv6.packB0 (n8 ver) (n8 tc)], Piece.put [PIPv6.packB1 (n8 tc) (n32 fl)],
-              Piece.put (be16 (PIPv6.packLo (n32 fl))), pU16 ln, pU8 nh, pU8 hl,
-              pCopyAdv [s0, s1, s2, s3, s4, s5, s6, s7, s8, s9, s10, s11, s12, s13, s14, s15] 16,
-              pCopyAdv [d0, d1, d2, d3, d4, d5, d6, d7, d8, d9, d10, d11, d12, d13, d14, d15] 16], p.Tight := by
-        simp [Piece.Tight, pU8, pU16, pCopyAdv]
-      have hplen : piecesLen [Piece.put [PIPv6.packB0 (n8 ver) (n8 tc)], Piece.put [PIPv6.packB1 (n8 tc) (n32 fl)],
-              Piece.put (be16 (PIPv6.packLo (n32 fl))), pU16 ln, pU8 nh, pU8 hl,
-              pCopyAdv [s0, s1, s2, s3, s4, s5, s6, s7, s8, s9, s10, s11, s12, s13, s14, s15] 16,
-              pCopyAdv [d0, d1, d2, d3, d4, d5, d6, d7, d8, d9, d10, d11, d12, d13, d14, d15] 16] = 40 := by
-        simp [piecesLen, Piece.adv, pU8, pU16, pCopyAdv]
-      have hpbb : piecesBytes [Piece.put [PIPv6.packB0 (n8 ver) (n8 tc)], Piece.put [PIPv6.packB1 (n8 tc) (n32 fl)],
-              Piece.put (be16 (PIPv6.packLo (n32 fl))), pU16 ln, pU8 nh, pU8 hl,
-              pCopyAdv [s0, s1, s2, s3, s4, s5, s6, s7, s8, s9, s10, s11, s12, s13, s14, s15] 16,
-              pCopyAdv [d0, d1, d2, d3, d4, d5, d6, d7, d8, d9, d10, d11, d12, d13, d14, d15] 16] =
-          [PIPv6.packB0 (n8 ver) (n8 tc), PIPv6.packB1 (n8 tc) (n32 fl)] ++ be16 (PIPv6.packLo (n32 fl)) ++ be16 (n16 ln) ++
-      [n8 nh, n8 hl] ++ [s0, s1, s2, s3, s4, s5, s6, s7, s8, s9, s10, s11, s12, s13, s14, s15] ++
-      [d0, d1, d2, d3, d4, d5, d6, d7, d8, d9, d10, d11, d12, d13, d14, d15] := by
-        simp [piecesBytes, Piece.bytes, pU8, pU16, pCopyAdv, zeros]
-      obtain ⟨o, ho⟩ := fill_ok_le (40 + ws.flatten.length + pb.length) _ hpre (by rw [hplen]; omega)
-      rw [ho, hch]
-      simp only [Res.bind_ok, Bool.false_eq_true, if_false]
-      obtain ⟨cp1, cp2, cp3⟩ := copy_pieces ws
-      have hpre2 : ∀ p ∈ [Piece.put [PIPv6.packB0 (n8 ver) (n8 tc)], Piece.put [PIPv6.packB1 (n8 tc) (n32 fl)],
-              Piece.put (be16 (PIPv6.packLo (n32 fl))), pU16 ln, pU8 nh, pU8 hl,
-              pCopyAdv [s0, s1, s2, s3, s4, s5, s6, s7, s8, s9, s10, s11, s12, s13, s14, s15] 16,
-              pCopyAdv [d0, d1, d2, d3, d4, d5, d6, d7, d8, d9, d10, d11, d12, d13, d14, d15] 16] ++ List.map pCopy ws ++ [pCopy []], p.Tight := by
-        intro p hp
-        rw [List.mem_append, List.mem_append] at hp
-        rcases hp with (hp | hp) | hp
-        · exact hpre p hp
-        · exact cp3 p hp
-        · simp at hp; subst hp; simp [Piece.Tight, pCopy]
-      have hplen2 : piecesLen ([Piece.put [PIPv6.packB0 (n8 ver) (n8 tc)], Piece.put [PIPv6.packB1 (n8 tc) (n32 fl)],
-              Piece.put (be16 (PIPv6.packLo (n32 fl))), pU16 ln, pU8 nh, pU8 hl,
-              pCopyAdv [s0, s1, s2, s3, s4, s5, s6, s7, s8, s9, s10, s11, s12, s13, s14, s15] 16,
-              pCopyAdv [d0, d1, d2, d3, d4, d5, d6, d7, d8, d9, d10, d11, d12, d13, d14, d15] 16] ++ List.map pCopy ws ++ [pCopy []]) = 40 + ws.flatten.length := by
-        unfold piecesLen at hplen cp2 ⊢
-        rw [List.map_append, List.map_append, List.sum_append, List.sum_append, hplen, cp2]
-        simp [Piece.adv, pCopy]
-      have hpbb2 : piecesBytes ([Piece.put [PIPv6.packB0 (n8 ver) (n8 tc)], Piece.put [PIPv6.packB1 (n8 tc) (n32 fl)],
-              Piece.put (be16 (PIPv6.packLo (n32 fl))), pU16 ln, pU8 nh, pU8 hl,
-              pCopyAdv [s0, s1, s2, s3, s4, s5, s6, s7, s8, s9, s10, s11, s12, s13, s14, s15] 16,
-              pCopyAdv [d0, d1, d2, d3, d4, d5, d6, d7, d8, d9, d10, d11, d12, d13, d14, d15] 16] ++ List.map pCopy ws ++ [pCopy []]) =
-          [PIPv6.packB0 (n8 ver) (n8 tc), PIPv6.packB1 (n8 tc) (n32 fl)] ++ be16 (PIPv6.packLo (n32 fl)) ++ be16 (n16 ln) ++
-      [n8 nh, n8 hl] ++ [s0, s1, s2, s3, s4, s5, s6, s7, s8, s9, s10, s11, s12, s13, s14, s15] ++
-      [d0, d1, d2, d3, d4, d5, d6, d7, d8, d9, d10, d11, d12, d13, d14, d15] ++ ws.flatten := by
-        unfold piecesBytes at hpbb cp1 ⊢
-        rw [List.map_append, List.map_append, List.flatten_append, List.flatten_append, hpbb, cp1]
-        simp [Piece.bytes, pCopy]
-      rw [fill_exact _ _ hpre2 (by rw [hplen2]; omega), hplen2, hpbb2]
-      simp only [Res.bind_ok]
-      have hfl : ([PIPv6.packB0 (n8 ver) (n8 tc), PIPv6.packB1 (n8 tc) (n32 fl)] ++ be16 (PIPv6.packLo (n32 fl)) ++ be16 (n16 ln) ++
-      [n8 nh, n8 hl] ++ [s0, s1, s2, s3, s4, s5, s6, s7, s8, s9, s10, s11, s12, s13, s14, s15] ++
-      [d0, d1, d2, d3, d4, d5, d6, d7, d8, d9, d10, d11, d12, d13, d14, d15] ++ ws.flatten).length = 40 + ws.flatten.length := by
-        simp only [List.length_append, List.length_cons, List.length_nil, be16_length]
-      have hk : 40 + ws.flatten.length + pb.length - (40 + ws.flatten.length) = pb.length := by omega
-      rw [hk]
-      conv => lhs; arg 1; arg 2; rw [← hfl]
-      rw [fillFrom_exact _ [pCopy pb] pb.length (by simp [Piece.Tight, pCopy]) (by simp [piecesLen, Piece.adv, pCopy])]
-      simp [piecesBytes, Piece.bytes, piecesLen, Piece.adv, pCopy, zeros]
-    · simp only [kIPv6At, hlenW]
-    · rw [hL]; simp only [List.length_append, List.length_cons, List.length_nil, be16_length]
-    · intro spare
-      generalize hWF : ws.flatten = wf at *
-      have hbl : (([PIPv6.packB0 (n8 ver) (n8 tc), PIPv6.packB1 (n8 tc) (n32 fl)] ++ be16 (PIPv6.packLo (n32 fl)) ++ be16 (n16 ln) ++
-      [n8 nh, n8 hl] ++ [s0, s1, s2, s3, s4, s5, s6, s7, s8, s9, s10, s11, s12, s13, s14, s15] ++
-      [d0, d1, d2, d3, d4, d5, d6, d7, d8, d9, d10, d11, d12, d13, d14, d15]) ++ wf ++ pb).length = 40 + wf.length + pb.length := by
-        simp only [List.length_append, List.length_cons, List.length_nil, be16_length]
-      rw [hbl]
-      simp only [kIPv6At]
-      unfold PIPv6.unmarshal
-      have hx := w5 (([PIPv6.packB0 (n8 ver) (n8 tc), PIPv6.packB1 (n8 tc) (n32 fl)] ++ be16 (PIPv6.packLo (n32 fl)) ++ be16 (n16 ln) ++
-      [n8 nh, n8 hl] ++ [s0, s1, s2, s3, s4, s5, s6, s7, s8, s9, s10, s11, s12, s13, s14, s15] ++
-      [d0, d1, d2, d3, d4, d5, d6, d7, d8, d9, d10, d11, d12, d13, d14, d15])) (pb ++ spare) (40 + wf.length + pb.length) (40 + wf.length + pb.length + 4)
-        { n := 40, nxt := n8 nh, hbh := .nil, rt := .nil, fr := .nil } rfl rfl
-        (by simp only [List.length_append, List.length_cons, List.length_nil, be16_length]; omega)
-        (by simp only [List.length_append, List.length_cons, List.length_nil, be16_length]; omega) (by omega)
-      rw [show (([PIPv6.packB0 (n8 ver) (n8 tc), PIPv6.packB1 (n8 tc) (n32 fl)] ++ be16 (PIPv6.packLo (n32 fl)) ++ be16 (n16 ln) ++
-      [n8 nh, n8 hl] ++ [s0, s1, s2, s3, s4, s5, s6, s7, s8, s9, s10, s11, s12, s13, s14, s15] ++
-      [d0, d1, d2, d3, d4, d5, d6, d7, d8, d9, d10, d11, d12, d13, d14, d15])).length = 40 from rfl] at hx
-      have hassoc : ([PIPv6.packB0 (n8 ver) (n8 tc), PIPv6.packB1 (n8 tc) (n32 fl)] ++ be16 (PIPv6.packLo (n32 fl)) ++ be16 (n16 ln) ++
-      [n8 nh, n8 hl] ++ [s0, s1, s2, s3, s4, s5, s6, s7, s8, s9, s10, s11, s12, s13, s14, s15] ++
-      [d0, d1, d2, d3, d4, d5, d6, d7, d8, d9, d10, d11, d12, d13, d14, d15]) ++ wf ++ (pb ++ spare) = ([PIPv6.packB0 (n8 ver) (n8 tc), PIPv6.packB1 (n8 tc) (n32 fl)] ++ be16 (PIPv6.packLo (n32 fl)) ++ be16 (n16 ln) ++
-      [n8 nh, n8 hl] ++ [s0, s1, s2, s3, s4, s5, s6, s7, s8, s9, s10, s11, s12, s13, s14, s15] ++
-      [d0, d1, d2, d3, d4, d5, d6, d7, d8, d9, d10, d11, d12, d13, d14, d15]) ++ wf ++ pb ++ spare := by
-        simp only [List.append_assoc]
-      rw [hassoc] at hx
-      have hrr : (⟨([PIPv6.packB0 (n8 ver) (n8 tc), PIPv6.packB1 (n8 tc) (n32 fl)] ++ be16 (PIPv6.packLo (n32 fl)) ++ be16 (n16 ln) ++
-      [n8 nh, n8 hl] ++ [s0, s1, s2, s3, s4, s5, s6, s7, s8, s9, s10, s11, s12, s13, s14, s15] ++
-      [d0, d1, d2, d3, d4, d5, d6, d7, d8, d9, d10, d11, d12, d13, d14, d15]) ++ wf ++ pb ++ spare, 40 + wf.length + pb.length⟩ : Slice).fromR (40 + wf.length)
-          = .ok ⟨pb ++ spare, pb.length⟩ := by
-        rw [Slice.fromR_ok _ _ (by show 40 + wf.length ≤ 40 + wf.length + pb.length; omega)]
-        have hpl2 : (([PIPv6.packB0 (n8 ver) (n8 tc), PIPv6.packB1 (n8 tc) (n32 fl)] ++ be16 (PIPv6.packLo (n32 fl)) ++ be16 (n16 ln) ++
-      [n8 nh, n8 hl] ++ [s0, s1, s2, s3, s4, s5, s6, s7, s8, s9, s10, s11, s12, s13, s14, s15] ++
-      [d0, d1, d2, d3, d4, d5, d6, d7, d8, d9, d10, d11, d12, d13, d14, d15]) ++ wf).length = 40 + wf.length := by
-          simp only [List.length_append, List.length_cons, List.length_nil, be16_length]
-        congr 2
-        · rw [List.append_assoc _ pb spare, ← hpl2, List.drop_left]
-        · show 40 + wf.length + pb.length - (40 + wf.length) = pb.length; omega
-      generalize hdata : (⟨([PIPv6.packB0 (n8 ver) (n8 tc), PIPv6.packB1 (n8 tc) (n32 fl)] ++ be16 (PIPv6.packLo (n32 fl)) ++ be16 (n16 ln) ++
-      [n8 nh, n8 hl] ++ [s0, s1, s2, s3, s4, s5, s6, s7, s8, s9, s10, s11, s12, s13, s14, s15] ++
-      [d0, d1, d2, d3, d4, d5, d6, d7, d8, d9, d10, d11, d12, d13, d14, d15]) ++ wf ++ pb ++ spare, 40 + wf.length + pb.length⟩ : Slice) = data at hx hrr ⊢
-      have a0 : 0 < 40 + wf.length + pb.length := by omega
-      have a1 : 1 < 40 + wf.length + pb.length := by omega
-      have a6 : 6 < 40 + wf.length + pb.length := by omega
-      have a7 : 7 < 40 + wf.length + pb.length := by omega
-      have c4 : 4 ≤ 40 + wf.length + pb.length := by omega
-      have b4 : 2 ≤ 40 + wf.length + pb.length - 4 := by omega
-      have r0 : data.byteAt 0 = .ok (PIPv6.packB0 (n8 ver) (n8 tc)) := by rw [← hdata]; rt_reads [a0]
-      have r1 : data.byteAt 1 = .ok (PIPv6.packB1 (n8 tc) (n32 fl)) := by rw [← hdata]; rt_reads [a1]
-      have rw4 : data.u32In 0 4 = .ok (mk32 (PIPv6.packB0 (n8 ver) (n8 tc)) (PIPv6.packB1 (n8 tc) (n32 fl))
-          (hi16 (PIPv6.packLo (n32 fl))) (lo16 (PIPv6.packLo (n32 fl)))) := by rw [← hdata]; rt_reads []
-      have r4 : data.u16From 4 = .ok (n16 ln) := by rw [← hdata]; rt_reads [c4, b4]
-      have r6 : data.byteAt 6 = .ok (n8 nh) := by rw [← hdata]; rt_reads [a6]
-      have r7 : data.byteAt 7 = .ok (n8 hl) := by rw [← hdata]; rt_reads [a7]
-      have r8 : data.sliceR 8 24 = .ok ⟨[s0, s1, s2, s3, s4, s5, s6, s7, s8, s9, s10, s11, s12, s13, s14, s15] ++
-          ([d0, d1, d2, d3, d4, d5, d6, d7, d8, d9, d10, d11, d12, d13, d14, d15] ++ wf ++ pb ++ spare), 16⟩ := by
-        rw [← hdata]; rt_reads []
-      have r24 : data.sliceR 24 40 = .ok ⟨[d0, d1, d2, d3, d4, d5, d6, d7, d8, d9, d10, d11, d12, d13, d14, d15] ++
-          (wf ++ pb ++ spare), 16⟩ := by
-        rw [← hdata]; rt_reads []
-      have rl : data.len = 40 + wf.length + pb.length := by rw [← hdata]
-      have e1 : ¬ (40 + wf.length + pb.length < 40) := by omega
-      simp only [r0, r1, rw4, r4, r6, r7, r8, r24, rl, Res.bind_ok, e1, if_false, PIPv6.zero, hx, visited, hrr]
-      have hdec := hpdec spare
-      unfold ipv6PayloadDecode at hdec
-      rw [← bind_ite, ← bind_ite, hdec]
-      have vH : (if ExtK.hbh ∈ P then hbh else V.nil) = hbh := by
-        by_cases hm : ExtK.hbh ∈ P
-        · rw [if_pos hm]
-        · rw [if_neg hm, isNil_eq _ (hnH hm)]
-      have vR : (if ExtK.rt ∈ P then rt else V.nil) = rt := by
-        by_cases hm : ExtK.rt ∈ P
-        · rw [if_pos hm]
-        · rw [if_neg hm, isNil_eq _ (hnR hm)]
-      have vF : (if ExtK.fr ∈ P then fr else V.nil) = fr := by
-        by_cases hm : ExtK.fr ∈ P
-        · rw [if_pos hm]
-        · rw [if_neg hm, isNil_eq _ (hnF hm)]
-      simp [Slice.bytes, makeCopy_self, l1, l2, l3', u8_n8, u16_n16, u32_n32, h2, h4, h5, h6, (by omega : ver < 256),
-        (by omega : fl < 4294967296), vH, vR, vF]
-  · exact h.elim
-
-/-- a well-formed IPv6 packet — header lanes, any admissible chain of hop-by-hop / routing / fragment headers in the order
-    the next-header values give, ICMPv6 / UDP / opaque payload — round-trips -/
-theorem ipv6_roundtrip (v : V) (h : IPv6.WFv v) : RoundTrip kIPv6 v := ipv6_roundtrip_at 15 v h
-
-/-- no extension header: next header 17 announces the UDP payload directly -/
-example : IPv6.WFv (.obj "p.IPv6" [.num 6, .num 0xa5, .num 0xfedcb, .num 11, .num 17, .num 64,
-    .bytes [0x20, 1, 0xd, 0xb8, 0, 0, 0, 0, 0, 0, 0, 0, 0, 0, 0, 1], .bytes [0x20, 1, 0xd, 0xb8, 0, 0, 0, 0, 0, 0, 0, 0, 0, 0, 0, 2],
-    .nil, .nil, .nil, .obj "p.UDP" [.num 68, .num 67, .num 11, .num 0, .bytes [1, 2, 3]]]) := by decide
-
-/-- hop-by-hop (0) → fragment (44) → ICMPv6 (58) -/
-example : IPv6.WFv (.obj "p.IPv6" [.num 6, .num 0, .num 1, .num 23, .num 0, .num 64,
-    .bytes [0x20, 1, 0xd, 0xb8, 0, 0, 0, 0, 0, 0, 0, 0, 0, 0, 0, 1], .bytes [0x20, 1, 0xd, 0xb8, 0, 0, 0, 0, 0, 0, 0, 0, 0, 0, 0, 2],
-    .obj "p.HopByHopHeader" [.num 44, .num 0, .list [.obj "p.Option" [.num 1, .num 4, .bytes [0, 0, 0, 0]]]],
-    .nil,
-    .obj "p.FragmentHeader" [.num 58, .num 0, .num 0x1abc, .num 1, .num 0xcafe0001],
-    .obj "p.ICMP" [.num 128, .num 0, .num 0xf7ff, .bytes [1, 2, 3]]]) := by decide
 
 /-! ## 3. Demux theorems -/
 
